@@ -1,16 +1,30 @@
 # C16 -- declarative codec: the laws of every building block (bit-field
 # pair, integer pair, length exactness, error discipline, presence/length
-# protocol, ownership of the decoded sequence).  The universal over all *compositions* of blocks is not decided;
-# these laws are the premises every composition relies on.
+# protocol, ownership of the decoded sequence) and of compositions of them.
 #
-# Technique: a small path-sensitive symbolic walker over the method bodies
-# (forward substitution into exprnf terms, attribute/subscript stores kept in
-# the environment, loops summarised as one symbolic iteration with the
-# loop-carried variables free, try/except as an extra exceptional path),
-# complete decision tables over the atoms of each method, normal-form
-# comparison (exprnf: linear collection, x & (2^k-1), shifts), the linear
-# rewrite ((x*m + o) - o) // m -> x, and folding of the class table through
-# the MRO.  Nothing of the repository is imported or executed.
+# Two layers:
+#  (1) SEMANTIC rules (decisive).  codec.py is folded by the checker's own
+#      concrete evaluator (`Mach`, below: an interpreter for the Python subset
+#      the module is written in, working on the `ast` only) over witness
+#      definitions built through the codec's public construction protocol, and
+#      every outcome (octets, decoded values, octets consumed, error class,
+#      non-termination) is compared with the checker's reference model of the
+#      documented behaviour (`R*` classes).  A counterexample is a VIOLATION
+#      and is printed with the definition, the input and both outcomes.  The
+#      shape of the implementation (helpers, loops vs comprehensions, cached
+#      tuples, assertions, guards on inputs where the original diverges,
+#      modern syntax) does not enter.
+#  (2) SYMBOLIC proof attempts (for all inputs, on the shape known at the pinned
+#      commit): a small path-sensitive symbolic walker over the method bodies
+#      (forward substitution into exprnf terms, loops summarised as one symbolic
+#      iteration, try/except as an extra path), complete decision tables,
+#      normal-form comparison, the linear rewrite ((x*m + o) - o) // m -> x, the
+#      class table through the MRO.  A proof that closes is recorded.  A proof
+#      that does not close is NOT a verdict: the law is then decided by (1)
+#      alone; the symbolic findings are printed only next to an evaluated
+#      counterexample; if (1) cannot be carried out either the run ends as
+#      ANALYSIS-ERROR.
+# Nothing of the repository is imported or executed by the host interpreter.
 
 import ast
 import itertools
@@ -24,26 +38,25 @@ from escape import handler_classes, catches
 import exprnf as X
 
 EXPLANATION = (
-    "Symbolic walk of codec.py's building blocks: every method body is turned "
-    "into path outcomes (return / raise / fall-through) whose values, stores and "
-    "calls are exprnf terms over the method's inputs; loops are summarised by one "
-    "symbolic iteration. From these the rules decide, for all inputs: the "
-    "bit-field offset/mask derivation and the (val & mask) << offset / "
-    "(blob >> offset) & mask pair, the integer pair's inverse law by the linear "
-    "rewrite ((x*m+o)-o)//m -> x with identical byte-order/sign attributes, the "
-    "integer class table through the MRO, the complete decision tables of "
-    "Field.from_bytes/to_bytes and of the Envelope tail check, the offset "
-    "advance of Envelope/Sequence loops, the catch-all wrappers around every "
-    "field call, and the presence test `is False` preceding any length/decoder call. "
-    "R6 resolves the object Sequence.from_bytes returns through the walker's environment to its origin "
-    "(list created by the call / argument / default-argument object / class attribute / module-level "
-    "object) and demands that a decode never fills and returns one long-lived list that it only grows.")
+    "Semantic layer (decisive): codec.py is folded by the checker's own concrete evaluator (an AST interpreter; nothing is imported "
+    "or executed) over witness definitions built through the codec's public protocol - 110 bit-field sets (22 partitions of 1..32 bits "
+    "with spares and fixed values incl. 0, explicit lengths; 5 order spellings), 27 integer fields (all ten classes, widths 1..8 octets, "
+    "five offset/mult transforms, boundary raws incl. 2**53+1 and the first unencodable values), the Field length/presence protocol with "
+    "probe fields and callbacks, ten compositions (TLV, optional fields, nested envelopes to depth 3, sequences, sequences in sequences), "
+    "eleven nested-length cases, error wrapping for every exception class a field can raise (also below nested envelopes and sequence "
+    "items), repeated decodes of one Sequence/envelope (result ownership), and the toolkit's own definitions (trxd_proto) - and every "
+    "outcome (octets, values, octets consumed, error class, non-termination) is compared with a reference model of the documented "
+    "behaviour. Symbolic layer (proof attempts for all inputs on the known shape): path outcomes of every method as exprnf terms, complete "
+    "decision tables, the linear rewrite ((x*m+o)-o)//m -> x, the class table through the MRO, handler stacks, the origin of the list "
+    "Sequence.from_bytes returns. A symbolic proof that does not close is never a verdict by itself: the law is then decided by the "
+    "evaluation.")
 ASSUMPTIONS = [
-    "the laws of each building block are decided, not the universal over all compositions of blocks (nesting, callbacks, chained variable lengths)",
-    "int.from_bytes / int.to_bytes / bytes slicing / bytes.join have their documented Python semantics; int.to_bytes raises OverflowError for an unencodable value",
+    "the universal over all compositions is decided on the listed witness compositions (and, where the symbolic proofs close, for all inputs of each block); not for every program built from the blocks",
+    "the concrete evaluator implements the semantics of the Python subset codec.py uses (checked against the host interpreter on the checker's own test snippets); int.from_bytes / int.to_bytes / slicing / bytes.join / struct are the host's",
     "callbacks (get_pres/get_len/get_val) are pure functions of their arguments",
-    "R6: a default-argument object / class attribute / module-level object that no toolkit code mentions outside Sequence.from_bytes is not emptied by reflection (__defaults__, getattr, globals())",
-    "ceil(sum/8): the derived-length term is tabulated exhaustively over bit sums 0..64 (the property's 1..4 octet layouts are 1..32), not proved for unbounded sums",
+    "a sequence item that consumes no octets is outside the domain (the pinned code does not terminate on it)",
+    "R6 (symbolic): a default-argument object / class attribute / module-level object that no toolkit code mentions outside Sequence.from_bytes is not emptied by reflection",
+    "ceil(sum/8) (symbolic): tabulated exhaustively over bit sums 0..64",
 ]
 
 F = rel("codec")
@@ -1843,21 +1856,2988 @@ def r6_ownership(L, repo, R="C16.R6", key=R6_KEY):
     L.floor(R, "return paths of Sequence.from_bytes", n, 1)
 
 
+# ============================================================ concrete evaluator
+#
+# `Mach` is the checker's own evaluator for the Python subset the toolkit's declarative modules are written
+# in (classes, closures, lambdas, comprehensions, try/except, while/for, super(), properties, f-strings,
+# struct, enum tables).  It works on the parsed source (`ast`) only - nothing of the repository is
+# imported, compiled or executed by the host interpreter - and is used to FOLD the code under analysis over
+# finite witness domains: a law is decided by evaluating both sides on boundary witnesses instead of by
+# matching the shape of the statements that implement it.  Anything outside the vocabulary raises
+# MachUnknown ("no verdict"), an evaluation that exceeds its step budget raises MachTimeout.
+
+import operator as _op
+import struct as _struct
+import array as _array
+import functools as _functools
+import math as _math
+import builtins as _builtins
+
+
+class MachUnknown(Exception):
+    """construct outside the evaluator's vocabulary"""
+
+
+class MachTimeout(Exception):
+    """step budget exhausted (the evaluated code does not terminate within the budget)"""
+
+
+class PyRaise(Exception):
+    """an exception raised by the evaluated code: .value is a PInst of an evaluated exception class or a host
+    exception instance created by a modelled primitive (ValueError, OverflowError, KeyError, ...)"""
+
+    def __init__(self, value, cause=None):
+        Exception.__init__(self, value)
+        self.value = value
+        self.cause = cause
+
+    @property
+    def cls_name(self):
+        v = self.value
+        return v.cls.name if isinstance(v, PInst) else type(v).__name__
+
+
+class PModule:
+    def __init__(self, name, ns=None, opaque=False):
+        self.name = name
+        self.ns = ns if ns is not None else {}
+        self.opaque = opaque
+        self.poisoned = {}
+
+    def __repr__(self):
+        return "<module %s>" % self.name
+
+
+class POpaque:
+    """a value of an unmodelled library: may be stored and passed around, never inspected"""
+
+    def __init__(self, text):
+        self.text = text
+
+    def __repr__(self):
+        return "<opaque %s>" % self.text
+
+
+class _EnumBase(object):
+    """stands for enum.Enum"""
+
+
+class PClass:
+    def __init__(self, mach, name, bases, ns, qual=None):
+        self.mach = mach
+        self.name = name
+        self.qual = qual or name
+        self.bases = list(bases)
+        self.ns = ns
+        self.poisoned = {}
+        self.enum_members = None
+        self.modname = None
+        self.mro = self._c3()
+
+    def _c3(self):
+        seqs = []
+        for b in self.bases:
+            seqs.append(list(b.mro) if isinstance(b, PClass) else [c for c in b.__mro__ if c is not object])
+        seqs.append(list(self.bases))
+        out = [self]
+        seqs = [s for s in seqs if s]
+        while seqs:
+            for s in seqs:
+                h = s[0]
+                if not any(h in t[1:] for t in seqs):
+                    break
+            else:
+                raise MachUnknown("inconsistent class hierarchy of %s" % self.name)
+            out.append(h)
+            seqs = [[x for x in s if x is not h] for s in seqs]
+            seqs = [s for s in seqs if s]
+        return out
+
+    def find(self, name, after=None):
+        """(owner, value) of a class-level name through the MRO (optionally only after class `after`)"""
+        mro = self.mro
+        if after is not None:
+            mro = mro[mro.index(after) + 1:] if after in mro else []
+        for c in mro:
+            if isinstance(c, PClass):
+                if name in c.ns:
+                    return c, c.ns[name]
+                if name in c.poisoned:
+                    raise MachUnknown(c.poisoned[name])
+            elif name in ("__init__", "__new__", "__str__", "__repr__"):
+                return c, _HostSlot(c, name)
+        return None, None
+
+    def is_sub(self, other):
+        return other in self.mro
+
+    def __iter__(self):
+        if self.enum_members is None:
+            raise TypeError("'type' object is not iterable")
+        return iter(list(self.enum_members))
+
+    def __len__(self):
+        if self.enum_members is None:
+            raise TypeError("object of type 'type' has no len()")
+        return len(self.enum_members)
+
+    def __repr__(self):
+        return "<class '%s'>" % self.qual
+
+
+class _HostSlot:
+    """__init__/__str__ of a host base class (object, Exception, ...) reached through an evaluated class"""
+
+    def __init__(self, cls, name):
+        self.cls, self.name = cls, name
+
+
+class PInst:
+    def __init__(self, cls):
+        self.cls = cls
+        self.attrs = {}
+
+    def __repr__(self):
+        if "args" in self.attrs and any(isinstance(c, type) and issubclass(c, BaseException) for c in self.cls.mro):
+            return "%s%r" % (self.cls.name, tuple(self.attrs["args"]))
+        if self.cls.enum_members is not None and "_name_" in self.attrs:
+            return "%s.%s" % (self.cls.name, self.attrs["_name_"])
+        return "<%s object>" % self.cls.qual
+
+    def __str__(self):
+        if "args" in self.attrs and any(isinstance(c, type) and issubclass(c, BaseException) for c in self.cls.mro):
+            a = self.attrs["args"]
+            return "" if not a else (str(a[0]) if len(a) == 1 else str(tuple(a)))
+        return self.__repr__()
+
+
+class PFunc:
+    def __init__(self, mach, node, env, name, defaults, kwdefaults, mod):
+        self.mach, self.node, self.env, self.name = mach, node, env, name
+        self.defaults, self.kwdefaults = defaults, kwdefaults
+        self.owner = None
+        self.mod = mod
+        self.is_lambda = isinstance(node, ast.Lambda)
+
+    def __repr__(self):
+        return "<function %s>" % self.name
+
+
+class PBound:
+    def __init__(self, func, obj):
+        self.func, self.obj = func, obj
+
+    def __repr__(self):
+        return "<bound method %s of %r>" % (getattr(self.func, "name", self.func), self.obj)
+
+
+class PStatic:
+    def __init__(self, f):
+        self.f = f
+
+
+class PClassM:
+    def __init__(self, f):
+        self.f = f
+
+
+class PProp:
+    def __init__(self, fget, fset=None):
+        self.fget, self.fset = fget, fset
+
+
+class PSuper:
+    def __init__(self, cls, obj):
+        self.cls, self.obj = cls, obj
+
+    def cls_of(self):
+        o = self.obj
+        if isinstance(o, PInst):
+            return o.cls
+        if isinstance(o, PClass):
+            return o
+        raise MachUnknown("super() on %r" % (o,))
+
+
+class Env:
+    __slots__ = ("vars", "parent", "is_class", "glob", "decl")
+
+    def __init__(self, parent=None, is_class=False, glob=None):
+        self.vars = {}
+        self.parent = parent
+        self.is_class = is_class
+        self.glob = glob if glob is not None else (parent.glob if parent is not None else self)
+        self.decl = None       # names declared global / nonlocal: name -> Env
+
+
+_INTERP = (PInst, PClass, PFunc, PBound, PModule, POpaque, PSuper, PStatic, PClassM, PProp)
+_HOST_VALUE_TYPES = (int, float, str, bytes, bytearray, tuple, list, dict, set, frozenset, range, slice, type(None),
+                     _struct.Struct, _array.array, memoryview, BaseException, complex,
+                     type({}.keys()), type({}.values()), type({}.items()))
+_HOST_TYPES_OK = (int, float, str, bytes, bytearray, tuple, list, dict, set, frozenset, bool, object, range)
+_BINOPS = {ast.Add: _op.add, ast.Sub: _op.sub, ast.Mult: _op.mul, ast.FloorDiv: _op.floordiv, ast.Mod: _op.mod,
+           ast.Div: _op.truediv, ast.Pow: _op.pow, ast.LShift: _op.lshift, ast.RShift: _op.rshift,
+           ast.BitOr: _op.or_, ast.BitAnd: _op.and_, ast.BitXor: _op.xor, ast.MatMult: _op.matmul}
+_IBINOPS = {ast.Add: _op.iadd, ast.Sub: _op.isub, ast.Mult: _op.imul, ast.FloorDiv: _op.ifloordiv, ast.Mod: _op.imod,
+            ast.Div: _op.itruediv, ast.Pow: _op.ipow, ast.LShift: _op.ilshift, ast.RShift: _op.irshift,
+            ast.BitOr: _op.ior, ast.BitAnd: _op.iand, ast.BitXor: _op.ixor}
+_EXC_NAMES = ["BaseException", "Exception", "ValueError", "TypeError", "KeyError", "IndexError", "LookupError",
+              "OverflowError", "ZeroDivisionError", "ArithmeticError", "AttributeError", "NotImplementedError",
+              "RuntimeError", "AssertionError", "StopIteration", "NameError", "OSError", "IOError", "EOFError",
+              "UnicodeDecodeError", "UnicodeError", "MemoryError", "RecursionError", "BufferError"]
+_MISSING = object()
+_HOF = (sorted, min, max, map, filter, _functools.reduce, _functools.partial)
+
+
+def _no_iter(v):
+    raise MachUnknown("iteration protocol on %r" % (v,))
+
+
+class Mach:
+    def __init__(self, repo, fuel=400000):
+        self.repo = repo
+        self.modules = {}
+        self.fuel = fuel
+        self.depth = 0
+        self.exc_stack = []
+        self.trace = None          # optional callable(event, *info) used by witnesses (call ordering)
+        b = {}
+        for f in (len, sum, range, tuple, list, dict, reversed, sorted, min, max, abs, enumerate, zip, bool, str, repr, bytes,
+                  bytearray, hex, bin, oct, divmod, any, all, round, float, int, set, frozenset, chr, ord, format, pow,
+                  memoryview, slice, object, map, filter, iter, next, id, hash):
+            b[f.__name__] = f
+        for n in _EXC_NAMES:
+            b[n] = getattr(_builtins, n)
+        b.update({"True": True, "False": False, "None": None, "NotImplemented": NotImplemented, "Ellipsis": Ellipsis,
+                  "__debug__": True})
+        for n in ("isinstance", "issubclass", "type", "super", "getattr", "setattr", "hasattr", "callable", "print",
+                  "staticmethod", "classmethod", "property", "vars", "delattr"):
+            b[n] = ("special", n)
+        self.builtins = b
+        self._ev = {getattr(ast, k[3:]): getattr(self, k) for k in dir(self) if k.startswith("ev_")}
+        self._ex = {getattr(ast, k[3:]): getattr(self, k) for k in dir(self) if k.startswith("ex_")}
+
+    # ------------------------------------------------------------------ modules
+    def host_module(self, name):
+        if name == "typing":
+            return PModule("typing", {"TYPE_CHECKING": False, "cast": ("special", "cast")}, opaque=True)
+        if name == "abc":
+            return PModule("abc", {"ABC": object, "abstractmethod": ("special", "identity"), "ABCMeta": POpaque("abc.ABCMeta")})
+        if name == "struct":
+            return PModule("struct", {"pack": _struct.pack, "unpack": _struct.unpack, "unpack_from": _struct.unpack_from,
+                                      "calcsize": _struct.calcsize, "Struct": _struct.Struct, "error": _struct.error,
+                                      "pack_into": _struct.pack_into})
+        if name == "functools":
+            return PModule("functools", {"reduce": _functools.reduce, "lru_cache": ("special", "deco_factory"),
+                                         "cache": ("special", "identity"), "partial": _functools.partial,
+                                         "wraps": ("special", "deco_factory_id")})
+        if name == "operator":
+            return PModule("operator", {k: getattr(_op, k) for k in ("or_", "and_", "add", "sub", "mul", "xor", "lshift", "rshift",
+                                                                    "itemgetter", "attrgetter", "eq", "ne", "lt", "le", "gt", "ge",
+                                                                    "neg", "not_", "floordiv", "mod", "getitem", "index")})
+        if name == "math":
+            return PModule("math", {k: getattr(_math, k) for k in ("ceil", "floor", "log", "log2", "sqrt", "gcd", "inf", "pi")})
+        if name == "array":
+            return PModule("array", {"array": _array.array})
+        if name == "enum":
+            return PModule("enum", {"Enum": _EnumBase, "IntEnum": POpaque("enum.IntEnum"), "unique": ("special", "identity"),
+                                    "auto": POpaque("enum.auto")})
+        if name == "itertools":
+            import itertools as _it
+            return PModule("itertools", {k: getattr(_it, k) for k in ("chain", "repeat", "product", "accumulate", "islice", "count",
+                                                                     "zip_longest", "takewhile", "dropwhile", "starmap")})
+        if name == "collections":
+            import collections as _c
+            return PModule("collections", {"OrderedDict": _c.OrderedDict, "namedtuple": POpaque("collections.namedtuple"),
+                                           "deque": POpaque("collections.deque"), "defaultdict": POpaque("collections.defaultdict")})
+        return PModule(name, opaque=True)
+
+    def module(self, name):
+        if name in self.modules:
+            m = self.modules[name]
+            if m is None:
+                raise MachUnknown("circular import of %s" % name)
+            return m
+        if not self.repo.has_mod(name):
+            m = self.host_module(name)
+            self.modules[name] = m
+            return m
+        self.modules[name] = None
+        src = self.repo.mod(name).src
+        try:
+            tree = ast.parse(src)
+        except SyntaxError as e:
+            raise MachUnknown("cannot parse %s: %s" % (name, e))
+        m = PModule(name)
+        env = Env()
+        env.vars = m.ns
+        m.ns["__name__"] = name
+        m.env = env
+        self.modules[name] = m
+        self.exec_lenient(tree.body, env, m.poisoned, m)
+        return m
+
+    def exec_source(self, src, name="<witness>", imports=None):
+        """evaluate checker-owned source text in a fresh module (used for witness definitions)"""
+        m = PModule(name)
+        env = Env()
+        env.vars = m.ns
+        m.ns["__name__"] = name
+        m.env = env
+        m.ns.update(imports or {})
+        sig = self.block(ast.parse(src).body, env, m)
+        return m
+
+    def exec_lenient(self, stmts, env, poisoned, mod):
+        """module / class body: a statement outside the vocabulary poisons only the names it would have bound"""
+        for st in stmts:
+            try:
+                sig = self.stmt(st, env, mod)
+                if sig is not None:
+                    raise MachUnknown("control flow statement at module/class level")
+            except MachUnknown as e:
+                for n in self.bound_names(st):
+                    poisoned[n] = "%s (while evaluating the definition of `%s`)" % (e, n)
+            except PyRaise as e:
+                for n in self.bound_names(st):
+                    poisoned[n] = "definition of `%s` raises %s" % (n, e.cls_name)
+
+    @staticmethod
+    def bound_names(st):
+        out = []
+        if isinstance(st, (ast.FunctionDef, ast.ClassDef)):
+            out.append(st.name)
+        elif isinstance(st, (ast.Import, ast.ImportFrom)):
+            out += [(a.asname or a.name).split(".")[0] for a in st.names]
+        else:
+            for n in ast.walk(st):
+                if isinstance(n, ast.Name) and isinstance(n.ctx, ast.Store):
+                    out.append(n.id)
+        return out
+
+    # ---------------------------------------------------------------- plumbing
+    def tick(self, n=1):
+        self.fuel -= n
+        if self.fuel < 0:
+            raise MachTimeout("step budget exhausted")
+
+    def native(self, f, args, kw):
+        """call a modelled host primitive; host exceptions become exceptions of the evaluated program"""
+        if f in _HOF or getattr(f, "__name__", "") == "sort" or type(f).__module__ == "itertools" or getattr(f, "__module__", "") in ("itertools", "operator"):
+            args = [self.hostify(a) for a in args]
+            if kw:
+                kw = {k: self.hostify(v) for k, v in kw.items()}
+        try:
+            return f(*args, **kw)
+        except (PyRaise, MachUnknown, MachTimeout):
+            raise
+        except RecursionError:
+            raise MachUnknown("recursion too deep")
+        except MemoryError:
+            raise MachUnknown("memory")
+        except Exception as e:
+            raise PyRaise(e)
+
+    def hostify(self, v):
+        """an evaluated callable handed to a host primitive (sorted(key=...), reduce, map) is wrapped"""
+        if isinstance(v, (PFunc, PBound)):
+            return lambda *a, **k: self.call(v, list(a), k)
+        return v
+
+    def raise_(self, cls, *args):
+        raise PyRaise(cls(*args))
+
+    def truth(self, v):
+        if isinstance(v, PInst):
+            for nm in ("__bool__", "__len__"):
+                o, f = v.cls.find(nm)
+                if f is not None:
+                    return bool(self.call(self.bind_attr(v, f), [], {}))
+            return True
+        if isinstance(v, _INTERP):
+            return True
+        try:
+            return bool(v)
+        except Exception as e:
+            raise PyRaise(e)
+
+    def iterate(self, v):
+        if isinstance(v, PClass):
+            if v.enum_members is None:
+                self.raise_(TypeError, "'type' object is not iterable")
+            return list(v.enum_members)
+        if isinstance(v, PInst):
+            o, f = v.cls.find("__iter__")
+            if f is None:
+                self.raise_(TypeError, "'%s' object is not iterable" % v.cls.name)
+            raise MachUnknown("user-defined iterator %s.__iter__" % v.cls.name)
+        if isinstance(v, _INTERP):
+            self.raise_(TypeError, "object is not iterable")
+        try:
+            return iter(v)
+        except TypeError as e:
+            raise PyRaise(e)
+
+    # ------------------------------------------------------------ attributes
+    def bind_attr(self, obj, f, cls=None):
+        if isinstance(f, PFunc):
+            return PBound(f, obj)
+        if isinstance(f, PStatic):
+            return f.f
+        if isinstance(f, PClassM):
+            return PBound(f.f, cls or obj.cls)
+        if isinstance(f, PProp):
+            return self.call(f.fget, [obj], {})
+        if isinstance(f, _HostSlot):
+            return PBound(f, obj)
+        return f
+
+    def getattr_(self, obj, name, default=_MISSING):
+        if isinstance(obj, PInst):
+            if name in obj.attrs:
+                return obj.attrs[name]
+            o, f = obj.cls.find(name)
+            if o is not None:
+                return self.bind_attr(obj, f)
+            if name == "__class__":
+                return obj.cls
+            if name == "__dict__":
+                return obj.attrs
+            o, f = obj.cls.find("__getattr__")
+            if f is not None and isinstance(f, PFunc):
+                return self.call(f, [obj, name], {})
+        elif isinstance(obj, PClass):
+            o, f = obj.find(name)
+            if o is not None:
+                if isinstance(f, PStatic):
+                    return f.f
+                if isinstance(f, PClassM):
+                    return PBound(f.f, obj)
+                return f
+            if name == "__name__":
+                return obj.name
+            if name == "__qualname__":
+                return obj.qual
+            if name == "__mro__":
+                return tuple(obj.mro)
+            if name == "__dict__":
+                return obj.ns
+            if name == "__members__" and obj.enum_members is not None:
+                return {m.attrs["_name_"]: m for m in obj.enum_members}
+        elif isinstance(obj, PModule):
+            if name in obj.ns:
+                return obj.ns[name]
+            if name in obj.poisoned:
+                raise MachUnknown(obj.poisoned[name])
+            if obj.opaque:
+                return POpaque("%s.%s" % (obj.name, name))
+        elif isinstance(obj, PSuper):
+            o, f = obj.cls_of().find(name, after=obj.cls)
+            if o is not None:
+                if isinstance(obj.obj, PClass):
+                    return self.bind_attr(None, f, cls=obj.obj) if isinstance(f, (PClassM, PStatic)) else f
+                return self.bind_attr(obj.obj, f)
+        elif isinstance(obj, POpaque):
+            return POpaque("%s.%s" % (obj.text, name))
+        elif isinstance(obj, (PFunc, PBound)):
+            if name == "__name__":
+                return obj.name if isinstance(obj, PFunc) else getattr(obj.func, "name", "?")
+            if isinstance(obj, PBound) and name == "__self__":
+                return obj.obj
+            if isinstance(obj, PBound) and name == "__func__":
+                return obj.func
+            if isinstance(obj, PFunc) and name in getattr(obj, "fattrs", {}):
+                return obj.fattrs[name]
+        elif isinstance(obj, type):
+            if obj in _HOST_TYPES_OK or (isinstance(obj, type) and issubclass(obj, BaseException)):
+                if name in ("__name__", "__qualname__"):
+                    return obj.__name__
+                if name == "__init__" and issubclass(obj, BaseException):
+                    return _HostSlot(obj, "__init__")
+                if not name.startswith("_") and hasattr(obj, name):
+                    return getattr(obj, name)
+            elif obj is _EnumBase:
+                pass
+            elif obj is _struct.Struct or obj is _array.array:
+                if not name.startswith("_") and hasattr(obj, name):
+                    return getattr(obj, name)
+        elif isinstance(obj, _HOST_VALUE_TYPES):
+            if name == "__class__":
+                return type(obj)
+            if not name.startswith("_") and hasattr(obj, name):
+                return getattr(obj, name)
+            if name in ("__len__", "__getitem__", "__contains__", "__eq__", "__iter__", "__add__", "__mul__", "__or__", "__and__") \
+                    and hasattr(obj, name):
+                return getattr(obj, name)
+        elif isinstance(obj, tuple) and len(obj) == 2 and obj[0] == "special":
+            pass
+        if default is not _MISSING:
+            return default
+        tn = obj.cls.name if isinstance(obj, PInst) else (obj.name if isinstance(obj, (PClass, PModule)) else type(obj).__name__)
+        if not isinstance(obj, _INTERP + _HOST_VALUE_TYPES + (type,)):
+            raise MachUnknown("attribute %s of an unmodelled value %r" % (name, type(obj).__name__))
+        raise PyRaise(AttributeError("'%s' object has no attribute '%s'" % (tn, name)))
+
+    def setattr_(self, obj, name, v):
+        if isinstance(obj, PInst):
+            o, f = obj.cls.find(name)
+            if isinstance(f, PProp):
+                if f.fset is None:
+                    self.raise_(AttributeError, "can't set attribute '%s'" % name)
+                self.call(f.fset, [obj, v], {})
+                return
+            o2, sa = obj.cls.find("__setattr__")
+            if isinstance(sa, PFunc):
+                raise MachUnknown("user-defined __setattr__")
+            obj.attrs[name] = v
+        elif isinstance(obj, PClass):
+            obj.ns[name] = v
+        elif isinstance(obj, PModule) and not obj.opaque:
+            obj.ns[name] = v
+        elif isinstance(obj, PFunc):
+            if not hasattr(obj, "fattrs"):
+                obj.fattrs = {}
+            obj.fattrs[name] = v
+        else:
+            if isinstance(obj, _INTERP):
+                raise MachUnknown("attribute store on %r" % (obj,))
+            self.raise_(AttributeError, "'%s' object has no attribute '%s'" % (type(obj).__name__, name))
+
+    # ------------------------------------------------------------------ calls
+    def call(self, f, args, kw):
+        self.tick()
+        if isinstance(f, PBound):
+            if isinstance(f.func, _HostSlot):
+                return self.host_slot(f.func, f.obj, args, kw)
+            return self.call(f.func, [f.obj] + list(args), kw)
+        if isinstance(f, PFunc):
+            return self.call_func(f, args, kw)
+        if isinstance(f, PClass):
+            return self.instantiate(f, args, kw)
+        if isinstance(f, _HostSlot):
+            if not args:
+                self.raise_(TypeError, "descriptor '%s' needs an argument" % f.name)
+            return self.host_slot(f, args[0], args[1:], kw)
+        if isinstance(f, tuple) and len(f) == 2 and f[0] == "special":
+            return self.special(f[1], args, kw)
+        if isinstance(f, PInst):
+            o, m = f.cls.find("__call__")
+            if isinstance(m, PFunc):
+                return self.call_func(m, [f] + list(args), kw)
+            self.raise_(TypeError, "'%s' object is not callable" % f.cls.name)
+        if isinstance(f, (POpaque,)):
+            if f.text.startswith(("log.", "logging.", "typing.")) or ".log." in f.text or f.text.split(".")[0] in ("log", "logging", "typing", "warnings"):
+                return POpaque(f.text + "()")
+            raise MachUnknown("call of unmodelled %s" % f.text)
+        if isinstance(f, _INTERP):
+            self.raise_(TypeError, "object is not callable")
+        if f is _EnumBase:
+            raise MachUnknown("functional enum API")
+        if callable(f):
+            return self.host_call(f, args, kw)
+        self.raise_(TypeError, "'%s' object is not callable" % type(f).__name__)
+
+    def host_call(self, f, args, kw):
+        # guards against host primitives applied to evaluated objects they cannot see through
+        if f in (len,) and args and isinstance(args[0], PInst):
+            o, m = args[0].cls.find("__len__")
+            if isinstance(m, PFunc):
+                return self.call_func(m, [args[0]], {})
+            self.raise_(TypeError, "object of type '%s' has no len()" % args[0].cls.name)
+        if f is bool and len(args) == 1 and isinstance(args[0], _INTERP):
+            return self.truth(args[0])
+        if f in (str, repr) and len(args) == 1 and isinstance(args[0], PInst):
+            for nm in (("__str__", "__repr__") if f is str else ("__repr__",)):
+                o, mm = args[0].cls.find(nm)
+                if isinstance(mm, PFunc):
+                    return self.call_func(mm, [args[0]], {})
+        if f in (iter, next):
+            raise MachUnknown("explicit iterator protocol (%s)" % f.__name__)
+        if f in (list, tuple, set, frozenset, sorted, sum, min, max, any, all, enumerate, reversed, dict, zip, map, filter) and args:
+            args = list(args)
+            for i, a in enumerate(args):
+                if isinstance(a, PClass):
+                    args[i] = self.iterate(a)
+                elif isinstance(a, PInst) and f not in (map, filter):
+                    self.iterate(a)
+        if f in (map, filter) and args:
+            r = self.native(f, args, kw)
+            return list(r)
+        if f is id:
+            return id(args[0]) if args else self.raise_(TypeError, "id() takes exactly one argument")
+        if f is _op.pow or f is pow:
+            if len(args) >= 2 and isinstance(args[1], int) and abs(args[1]) > 8192:
+                raise MachUnknown("huge exponent")
+        if f in (bytes, bytearray) and len(args) == 1 and isinstance(args[0], int) and not isinstance(args[0], bool) and args[0] > (1 << 22):
+            raise MachUnknown("huge buffer")
+        return self.native(f, args, kw)
+
+    def host_slot(self, slot, obj, args, kw):
+        if slot.name == "__init__":
+            if isinstance(slot.cls, type) and issubclass(slot.cls, BaseException):
+                if isinstance(obj, PInst):
+                    obj.attrs["args"] = tuple(args)
+                return None
+            if args or kw:
+                self.raise_(TypeError, "object.__init__() takes exactly one argument (the instance to initialize)")
+            return None
+        if slot.name in ("__str__", "__repr__"):
+            return str(obj) if slot.name == "__str__" else repr(obj)
+        raise MachUnknown("host slot %s" % slot.name)
+
+    def call_func(self, f, args, kw):
+        node = f.node
+        if getattr(node, "_is_gen", None) is None:
+            body = node.body if isinstance(node.body, list) else [node.body]
+            gen = False
+            for b in body:
+                for n in ast.walk(b):
+                    if isinstance(n, ast.Await):
+                        raise MachUnknown("coroutine %s" % f.name)
+                    if isinstance(n, (ast.Yield, ast.YieldFrom)):
+                        gen = True
+            node._is_gen = gen
+        env = Env(f.env)
+        self.bind_params(f, args, kw, env.vars)
+        if node._is_gen:
+            # a generator function is run to exhaustion and its values handed out afterwards: exact for producers
+            # without side effects that are consumed completely (what the evaluated modules use them for)
+            if f.is_lambda:
+                raise MachUnknown("generator lambda")
+            out = []
+            env.vars["$func"] = f
+            env.vars["$gen"] = out
+            self.depth += 1
+            try:
+                if self.depth > 60:
+                    raise MachUnknown("recursion too deep in %s" % f.name)
+                self.block(node.body, env, f.mod)
+            finally:
+                self.depth -= 1
+            return iter(out)
+        self.depth += 1
+        if self.depth > 60:
+            self.depth -= 1
+            raise MachUnknown("recursion too deep in %s" % f.name)
+        try:
+            env.vars["$func"] = f
+            if f.is_lambda:
+                return self.ev(node.body, env, f.mod)
+            sig = self.block(node.body, env, f.mod)
+            if sig is not None and sig[0] == "r":
+                return sig[1]
+            return None
+        finally:
+            self.depth -= 1
+
+    def bind_params(self, f, args, kw, out):
+        a = f.node.args
+        posonly = list(getattr(a, "posonlyargs", []))
+        params = posonly + list(a.args)
+        n = len(params)
+        if len(args) > n and a.vararg is None:
+            self.raise_(TypeError, "%s() takes %d positional arguments but %d were given" % (f.name, n, len(args)))
+        for p, v in zip(params, args):
+            out[p.arg] = v
+        if a.vararg is not None:
+            out[a.vararg.arg] = tuple(args[n:])
+        extra = {}
+        kwnames = {p.arg for p in a.args} | {p.arg for p in a.kwonlyargs}
+        for k, v in kw.items():
+            if k in kwnames:
+                if k in out:
+                    self.raise_(TypeError, "%s() got multiple values for argument '%s'" % (f.name, k))
+                out[k] = v
+            elif a.kwarg is not None:
+                extra[k] = v
+            else:
+                self.raise_(TypeError, "%s() got an unexpected keyword argument '%s'" % (f.name, k))
+        nd = len(f.defaults)
+        for i, p in enumerate(params):
+            if p.arg not in out:
+                j = i - (n - nd)
+                if j >= 0:
+                    out[p.arg] = f.defaults[j]
+                else:
+                    self.raise_(TypeError, "%s() missing required positional argument: '%s'" % (f.name, p.arg))
+        for p in a.kwonlyargs:
+            if p.arg not in out:
+                if p.arg in f.kwdefaults:
+                    out[p.arg] = f.kwdefaults[p.arg]
+                else:
+                    self.raise_(TypeError, "%s() missing required keyword-only argument: '%s'" % (f.name, p.arg))
+        if a.kwarg is not None:
+            out[a.kwarg.arg] = extra
+
+    def instantiate(self, cls, args, kw):
+        if cls.enum_members is not None:
+            if len(args) == 1 and not kw:
+                for m in cls.enum_members:
+                    if m.attrs["_value_"] == args[0]:
+                        return m
+                self.raise_(ValueError, "%r is not a valid %s" % (args[0], cls.name))
+            raise MachUnknown("enum call")
+        o, new = cls.find("__new__")
+        if isinstance(new, (PFunc, PStatic)):
+            raise MachUnknown("user-defined __new__ in %s" % cls.name)
+        inst = PInst(cls)
+        if any(isinstance(c, type) and issubclass(c, BaseException) for c in cls.mro):
+            inst.attrs["args"] = tuple(args)
+        o, init = cls.find("__init__")
+        if isinstance(init, PFunc):
+            self.call_func(init, [inst] + list(args), kw)
+        elif isinstance(init, _HostSlot):
+            self.host_slot(init, inst, args, kw)
+        elif init is None:
+            if args or kw:
+                self.raise_(TypeError, "%s() takes no arguments" % cls.name)
+        else:
+            raise MachUnknown("__init__ of %s is not a function" % cls.name)
+        return inst
+
+    def special(self, name, args, kw):
+        if name == "identity":
+            return args[0]
+        if name == "cast":
+            return args[1] if len(args) == 2 else self.raise_(TypeError, "cast() takes 2 arguments")
+        if name == "deco_factory":
+            if len(args) == 1 and isinstance(args[0], (PFunc,)) and not kw:
+                return args[0]
+            return ("special", "identity")
+        if name == "deco_factory_id":
+            return ("special", "identity")
+        if name == "isinstance" or name == "issubclass":
+            if len(args) != 2:
+                self.raise_(TypeError, "%s expected 2 arguments" % name)
+            x, cs = args
+            cs = cs if isinstance(cs, tuple) else (cs,)
+            for c in cs:
+                if isinstance(c, PClass):
+                    xc = x.cls if (name == "isinstance" and isinstance(x, PInst)) else (x if name == "issubclass" and isinstance(x, PClass) else None)
+                    if xc is not None and xc.is_sub(c):
+                        return True
+                elif isinstance(c, type):
+                    if name == "isinstance":
+                        if isinstance(x, PInst):
+                            if c is object or c in x.cls.mro or any(isinstance(b, type) and issubclass(b, c) for b in x.cls.mro):
+                                return True
+                        elif isinstance(x, _INTERP):
+                            if c is object:
+                                return True
+                        elif isinstance(x, c):
+                            return True
+                    else:
+                        if isinstance(x, PClass):
+                            if c is object or any(isinstance(b, type) and issubclass(b, c) for b in x.mro):
+                                return True
+                        elif isinstance(x, type) and issubclass(x, c):
+                            return True
+                elif isinstance(c, POpaque):
+                    raise MachUnknown("isinstance against unmodelled %s" % c.text)
+                else:
+                    self.raise_(TypeError, "isinstance() arg 2 must be a type")
+            return False
+        if name == "type":
+            if len(args) != 1:
+                raise MachUnknown("type() with %d arguments" % len(args))
+            x = args[0]
+            if isinstance(x, PInst):
+                return x.cls
+            if isinstance(x, PClass):
+                return type
+            if isinstance(x, _INTERP):
+                raise MachUnknown("type() of %r" % (x,))
+            return type(x)
+        if name == "super":
+            if not args:
+                raise MachUnknown("zero-argument super() outside a method")
+            return PSuper(args[0], args[1]) if len(args) == 2 else self.raise_(TypeError, "super() arguments")
+        if name == "getattr":
+            if len(args) == 3:
+                return self.getattr_(args[0], args[1], default=args[2])
+            return self.getattr_(args[0], args[1])
+        if name == "hasattr":
+            try:
+                self.getattr_(args[0], args[1])
+                return True
+            except PyRaise as e:
+                if isinstance(e.value, AttributeError):
+                    return False
+                raise
+        if name == "setattr":
+            self.setattr_(args[0], args[1], args[2])
+            return None
+        if name == "delattr":
+            if isinstance(args[0], PInst) and args[1] in args[0].attrs:
+                del args[0].attrs[args[1]]
+                return None
+            self.raise_(AttributeError, args[1])
+        if name == "vars":
+            if len(args) == 1 and isinstance(args[0], PInst):
+                return args[0].attrs
+            raise MachUnknown("vars()")
+        if name == "callable":
+            x = args[0]
+            if isinstance(x, PInst):
+                return x.cls.find("__call__")[1] is not None
+            return isinstance(x, (PFunc, PBound, PClass)) or (not isinstance(x, _INTERP) and callable(x))
+        if name == "print":
+            return None
+        if name == "staticmethod":
+            return PStatic(args[0])
+        if name == "classmethod":
+            return PClassM(args[0])
+        if name == "property":
+            return PProp(args[0] if args else kw.get("fget"), args[1] if len(args) > 1 else kw.get("fset"))
+        raise MachUnknown("builtin %s" % name)
+
+    # -------------------------------------------------------------- statements
+    def block(self, stmts, env, mod):
+        for st in stmts:
+            sig = self.stmt(st, env, mod)
+            if sig is not None:
+                return sig
+        return None
+
+    def stmt(self, st, env, mod):
+        self.tick()
+        m = self._ex.get(type(st))
+        if m is None:
+            raise MachUnknown("statement %s" % type(st).__name__)
+        return m(st, env, mod)
+
+    def ex_Expr(self, st, env, mod):
+        if not isinstance(st.value, ast.Constant):
+            self.ev(st.value, env, mod)
+        return None
+
+    def ex_Pass(self, st, env, mod):
+        return None
+
+    def ex_Return(self, st, env, mod):
+        return ("r", self.ev(st.value, env, mod) if st.value is not None else None)
+
+    def ex_Break(self, st, env, mod):
+        return ("b",)
+
+    def ex_Continue(self, st, env, mod):
+        return ("c",)
+
+    def ex_Assign(self, st, env, mod):
+        v = self.ev(st.value, env, mod)
+        for t in st.targets:
+            self.store(t, v, env, mod)
+        return None
+
+    def ex_AnnAssign(self, st, env, mod):
+        if st.value is not None:
+            self.store(st.target, self.ev(st.value, env, mod), env, mod)
+        return None
+
+    def ex_AugAssign(self, st, env, mod):
+        f = _IBINOPS.get(type(st.op))
+        if f is None:
+            raise MachUnknown("augmented operator")
+        t = st.target
+        if isinstance(t, ast.Name):
+            cur = self.lookup(t.id, env)
+            self.bind(t.id, self.binop(f, cur, self.ev(st.value, env, mod), st.op), env)
+        elif isinstance(t, ast.Attribute):
+            obj = self.ev(t.value, env, mod)
+            cur = self.getattr_(obj, t.attr)
+            self.setattr_(obj, t.attr, self.binop(f, cur, self.ev(st.value, env, mod), st.op))
+        elif isinstance(t, ast.Subscript):
+            obj = self.ev(t.value, env, mod)
+            key = self.ev_slice(t.slice, env, mod)
+            cur = self.getitem(obj, key)
+            self.setitem(obj, key, self.binop(f, cur, self.ev(st.value, env, mod), st.op))
+        else:
+            raise MachUnknown("augmented target")
+        return None
+
+    def ex_If(self, st, env, mod):
+        if self.truth(self.ev(st.test, env, mod)):
+            return self.block(st.body, env, mod)
+        return self.block(st.orelse, env, mod)
+
+    def ex_While(self, st, env, mod):
+        while self.truth(self.ev(st.test, env, mod)):
+            self.tick()
+            sig = self.block(st.body, env, mod)
+            if sig is not None:
+                if sig[0] == "b":
+                    return None
+                if sig[0] == "r":
+                    return sig
+        return self.block(st.orelse, env, mod)
+
+    def ex_For(self, st, env, mod):
+        it = iter(self.iterate(self.ev(st.iter, env, mod)))
+        while True:
+            try:
+                v = next(it)
+            except StopIteration:
+                break
+            except (PyRaise, MachUnknown, MachTimeout):
+                raise
+            except Exception as e:
+                raise PyRaise(e)
+            self.tick()
+            self.store(st.target, v, env, mod)
+            sig = self.block(st.body, env, mod)
+            if sig is not None:
+                if sig[0] == "b":
+                    return None
+                if sig[0] == "r":
+                    return sig
+        return self.block(st.orelse, env, mod)
+
+    def ex_Raise(self, st, env, mod):
+        if st.exc is None:
+            if not self.exc_stack:
+                self.raise_(RuntimeError, "No active exception to reraise")
+            raise self.exc_stack[-1]
+        v = self.ev(st.exc, env, mod)
+        if isinstance(v, PClass) or (isinstance(v, type) and issubclass(v, BaseException)):
+            v = self.call(v, [], {})
+        if isinstance(v, PInst):
+            if not any(isinstance(c, type) and issubclass(c, BaseException) for c in v.cls.mro):
+                self.raise_(TypeError, "exceptions must derive from BaseException")
+        elif not isinstance(v, BaseException):
+            self.raise_(TypeError, "exceptions must derive from BaseException")
+        cause = self.ev(st.cause, env, mod) if st.cause is not None else None
+        raise PyRaise(v, cause)
+
+    def exc_matches(self, e, t):
+        ts = t if isinstance(t, tuple) else (t,)
+        v = e.value
+        for c in ts:
+            if isinstance(c, PClass):
+                if isinstance(v, PInst) and v.cls.is_sub(c):
+                    return True
+            elif isinstance(c, type) and issubclass(c, BaseException):
+                if isinstance(v, PInst):
+                    if any(isinstance(b, type) and issubclass(b, c) for b in v.cls.mro):
+                        return True
+                elif isinstance(v, c):
+                    return True
+            elif isinstance(c, POpaque):
+                raise MachUnknown("except clause with unmodelled class %s" % c.text)
+            else:
+                self.raise_(TypeError, "catching classes that do not inherit from BaseException is not allowed")
+        return False
+
+    def ex_Try(self, st, env, mod):
+        sig = None
+        try:
+            try:
+                sig = self.block(st.body, env, mod)
+            except PyRaise as e:
+                for h in st.handlers:
+                    if h.type is None or self.exc_matches(e, self.ev(h.type, env, mod)):
+                        if h.name:
+                            self.bind(h.name, e.value, env)
+                        self.exc_stack.append(e)
+                        try:
+                            sig = self.block(h.body, env, mod)
+                        finally:
+                            self.exc_stack.pop()
+                        break
+                else:
+                    raise
+            else:
+                if sig is None:
+                    sig = self.block(st.orelse, env, mod)
+        finally:
+            if st.finalbody:
+                # (a MachUnknown/MachTimeout in flight is not an exception of the evaluated program, but running the
+                # finaliser is harmless)
+                fs = self.block(st.finalbody, env, mod)
+                if fs is not None:
+                    return fs
+        return sig
+
+    def ex_Assert(self, st, env, mod):
+        if not self.truth(self.ev(st.test, env, mod)):
+            msg = self.ev(st.msg, env, mod) if st.msg is not None else None
+            raise PyRaise(AssertionError(msg) if msg is not None else AssertionError())
+        return None
+
+    def ex_Delete(self, st, env, mod):
+        for t in st.targets:
+            if isinstance(t, ast.Name):
+                e = self.find_env(t.id, env)
+                if e is None:
+                    self.raise_(NameError, "name '%s' is not defined" % t.id)
+                del e.vars[t.id]
+            elif isinstance(t, ast.Subscript):
+                obj = self.ev(t.value, env, mod)
+                key = self.ev_slice(t.slice, env, mod)
+                if isinstance(obj, PInst):
+                    o, f = obj.cls.find("__delitem__")
+                    if not isinstance(f, PFunc):
+                        self.raise_(TypeError, "'%s' object does not support item deletion" % obj.cls.name)
+                    self.call_func(f, [obj, key], {})
+                else:
+                    self.native(_op.delitem, [obj, key], {})
+            elif isinstance(t, ast.Attribute):
+                obj = self.ev(t.value, env, mod)
+                if isinstance(obj, PInst) and t.attr in obj.attrs:
+                    del obj.attrs[t.attr]
+                else:
+                    self.raise_(AttributeError, t.attr)
+            else:
+                raise MachUnknown("del target")
+        return None
+
+    def ex_Global(self, st, env, mod):
+        if env.decl is None:
+            env.decl = {}
+        for n in st.names:
+            env.decl[n] = env.glob
+        return None
+
+    def ex_Nonlocal(self, st, env, mod):
+        if env.decl is None:
+            env.decl = {}
+        for n in st.names:
+            e = env.parent
+            while e is not None and (e.is_class or n not in e.vars):
+                e = e.parent
+            if e is None:
+                raise MachUnknown("nonlocal %s unresolved" % n)
+            env.decl[n] = e
+        return None
+
+    def ex_Import(self, st, env, mod):
+        for a in st.names:
+            m = self.module(a.name.split(".")[0])
+            if "." in a.name and not m.opaque:
+                raise MachUnknown("dotted import %s" % a.name)
+            self.bind(a.asname or a.name.split(".")[0], m if not (a.asname and "." in a.name) else POpaque(a.name), env)
+        return None
+
+    def ex_ImportFrom(self, st, env, mod):
+        if st.level:
+            raise MachUnknown("relative import")
+        m = self.module(st.module.split(".")[0])
+        if "." in st.module and not m.opaque:
+            raise MachUnknown("dotted import %s" % st.module)
+        for a in st.names:
+            if a.name == "*":
+                if m.opaque:
+                    continue
+                for k, v in m.ns.items():
+                    if not k.startswith("_"):
+                        self.bind(k, v, env)
+                if isinstance(mod, PModule):
+                    for k, why in m.poisoned.items():
+                        mod.poisoned.setdefault(k, why)
+            else:
+                self.bind(a.asname or a.name, self.getattr_(m, a.name), env)
+        return None
+
+    def ex_FunctionDef(self, st, env, mod):
+        f = self.make_func(st, env, mod, st.name)
+        v = f
+        for d in reversed(st.decorator_list):
+            if isinstance(d, ast.Attribute) and d.attr in ("setter", "getter", "deleter"):
+                pv = self.ev(d.value, env, mod)
+                if not isinstance(pv, PProp) or d.attr != "setter":
+                    raise MachUnknown("decorator %s" % d.attr)
+                v = PProp(pv.fget, v)
+                continue
+            v = self.call(self.ev(d, env, mod), [v], {})
+        self.bind(st.name, v, env)
+        return None
+
+    def make_func(self, node, env, mod, name):
+        a = node.args
+        cenv = env
+        while cenv is not None and cenv.is_class:
+            cenv = cenv.parent
+        defaults = [self.ev(d, env, mod) for d in a.defaults]
+        kwd = {p.arg: self.ev(d, env, mod) for p, d in zip(a.kwonlyargs, a.kw_defaults) if d is not None}
+        return PFunc(self, node, cenv, name, defaults, kwd, mod)
+
+    def ex_ClassDef(self, st, env, mod):
+        bases = []
+        for b in st.bases:
+            v = self.ev(b, env, mod)
+            if isinstance(v, POpaque):
+                if v.text.startswith("typing."):
+                    continue                    # Generic[...] / Protocol: no run-time behaviour the evaluated code relies on
+                raise MachUnknown("base class %s is not modelled" % v.text)
+            if v is object:
+                continue
+            if not isinstance(v, (PClass, type)):
+                raise MachUnknown("base class %r" % (v,))
+            if isinstance(v, type) and not (v is _EnumBase or issubclass(v, BaseException)):
+                raise MachUnknown("host base class %s" % v.__name__)
+            bases.append(v)
+        for k in st.keywords:
+            if k.arg != "metaclass":
+                raise MachUnknown("class keyword %s" % k.arg)
+        cenv = Env(env, is_class=True)
+        outer = env.vars.get("$classqual")
+        qual = (outer + "." if outer else "") + st.name
+        cenv.vars["$classqual"] = qual
+        cls = PClass(self, st.name, bases, cenv.vars, qual)
+        cls.modname = getattr(mod, "name", None)
+        self.exec_lenient(st.body, cenv, cls.poisoned, mod)
+        cenv.vars.pop("$classqual", None)
+        for v in list(cls.ns.values()):
+            f = v.f if isinstance(v, (PStatic, PClassM)) else v
+            if isinstance(v, PProp):
+                for g in (v.fget, v.fset):
+                    if isinstance(g, PFunc) and g.owner is None:
+                        g.owner = cls
+            if isinstance(f, PFunc) and f.owner is None:
+                f.owner = cls
+        if _EnumBase in cls.mro:
+            self.make_enum(cls)
+        v = cls
+        for d in reversed(st.decorator_list):
+            v = self.call(self.ev(d, env, mod), [v], {})
+        self.bind(st.name, v, env)
+        return None
+
+    def make_enum(self, cls):
+        members = []
+        o, init = cls.find("__init__")
+        cls.enum_members = members
+        for k, v in list(cls.ns.items()):
+            if k.startswith("_") or k.startswith("$") or isinstance(v, (PFunc, PStatic, PClassM, PProp, PClass)):
+                continue
+            if isinstance(v, POpaque):
+                raise MachUnknown("enum member value %s" % v.text)
+            same = [m for m in members if m.attrs["_value_"] == v]
+            if same:
+                cls.ns[k] = same[0]
+                continue
+            m = PInst(cls)
+            m.attrs.update(_value_=v, _name_=k, name=k, value=v)
+            if isinstance(init, PFunc):
+                self.call_func(init, [m] + (list(v) if isinstance(v, tuple) else [v]), {})
+            cls.ns[k] = m
+            members.append(m)
+
+    def ex_With(self, st, env, mod):
+        if len(st.items) != 1:
+            return self.ex_With(ast.With(items=st.items[:1], body=[ast.With(items=st.items[1:], body=st.body)]), env, mod)
+        it = st.items[0]
+        cm = self.ev(it.context_expr, env, mod)
+        if isinstance(cm, POpaque):
+            if it.optional_vars is not None:
+                self.store(it.optional_vars, cm, env, mod)
+            return self.block(st.body, env, mod)
+        if isinstance(cm, memoryview):
+            if it.optional_vars is not None:
+                self.store(it.optional_vars, cm, env, mod)
+            try:
+                return self.block(st.body, env, mod)
+            finally:
+                try:
+                    cm.release()
+                except BufferError:
+                    pass
+        if not isinstance(cm, PInst):
+            raise MachUnknown("context manager %r" % (type(cm).__name__,))
+        enter, exit_ = self.getattr_(cm, "__enter__"), self.getattr_(cm, "__exit__")
+        v = self.call(enter, [], {})
+        if it.optional_vars is not None:
+            self.store(it.optional_vars, v, env, mod)
+        try:
+            sig = self.block(st.body, env, mod)
+        except PyRaise as e:
+            val = e.value
+            cls = val.cls if isinstance(val, PInst) else type(val)
+            if self.truth(self.call(exit_, [cls, val, None], {})):
+                return None
+            raise
+        self.call(exit_, [None, None, None], {})
+        return sig
+
+    # ------------------------------------------------------------- name binding
+    def find_env(self, name, env):
+        e = env
+        first = True
+        while e is not None:
+            if (first or not e.is_class) and name in e.vars:
+                return e
+            first = False
+            e = e.parent
+        return None
+
+    def lookup(self, name, env):
+        if env.decl and name in env.decl:
+            e = env.decl[name]
+            if name in e.vars:
+                return e.vars[name]
+        else:
+            e = self.find_env(name, env)
+            if e is not None:
+                return e.vars[name]
+        if name in self.builtins:
+            return self.builtins[name]
+        g = env.glob
+        for m in self.modules.values():
+            if m is not None and getattr(m, "env", None) is g and name in m.poisoned:
+                raise MachUnknown(m.poisoned[name])
+        # class-body scopes on the chain that poisoned the name
+        raise PyRaise(NameError("name '%s' is not defined" % name))
+
+    def bind(self, name, v, env):
+        if env.decl and name in env.decl:
+            env.decl[name].vars[name] = v
+        else:
+            env.vars[name] = v
+
+    def store(self, t, v, env, mod):
+        if isinstance(t, ast.Name):
+            self.bind(t.id, v, env)
+        elif isinstance(t, ast.Attribute):
+            self.setattr_(self.ev(t.value, env, mod), t.attr, v)
+        elif isinstance(t, ast.Subscript):
+            self.setitem(self.ev(t.value, env, mod), self.ev_slice(t.slice, env, mod), v)
+        elif isinstance(t, (ast.Tuple, ast.List)):
+            try:
+                vals = list(self.iterate(v))
+            except (PyRaise, MachUnknown, MachTimeout):
+                raise
+            stars = [i for i, x in enumerate(t.elts) if isinstance(x, ast.Starred)]
+            if stars:
+                i = stars[0]
+                after = len(t.elts) - i - 1
+                if len(vals) < len(t.elts) - 1:
+                    self.raise_(ValueError, "not enough values to unpack")
+                parts = vals[:i] + [vals[i:len(vals) - after]] + vals[len(vals) - after:]
+                for x, p in zip(t.elts, parts):
+                    self.store(x.value if isinstance(x, ast.Starred) else x, p, env, mod)
+                return
+            if len(vals) != len(t.elts):
+                self.raise_(ValueError, "too many values to unpack" if len(vals) > len(t.elts) else "not enough values to unpack")
+            for x, p in zip(t.elts, vals):
+                self.store(x, p, env, mod)
+        else:
+            raise MachUnknown("store target %s" % type(t).__name__)
+
+    # -------------------------------------------------------------- expressions
+    def ev(self, n, env, mod):
+        m = self._ev.get(type(n))
+        if m is None:
+            raise MachUnknown("expression %s" % type(n).__name__)
+        return m(n, env, mod)
+
+    def ev_Constant(self, n, env, mod):
+        return n.value
+
+    def ev_Name(self, n, env, mod):
+        if n.id == "__class__":
+            f = self.cur_func(env)
+            if f is not None and f.owner is not None:
+                return f.owner
+        return self.lookup(n.id, env)
+
+    def cur_func(self, env):
+        e = env
+        while e is not None:
+            if "$func" in e.vars:
+                return e.vars["$func"]
+            e = e.parent
+        return None
+
+    def ev_Attribute(self, n, env, mod):
+        return self.getattr_(self.ev(n.value, env, mod), n.attr)
+
+    def ev_slice(self, s, env, mod):
+        if isinstance(s, ast.Slice):
+            return slice(self.ev(s.lower, env, mod) if s.lower is not None else None,
+                         self.ev(s.upper, env, mod) if s.upper is not None else None,
+                         self.ev(s.step, env, mod) if s.step is not None else None)
+        if isinstance(s, ast.Tuple):
+            return tuple(self.ev_slice(x, env, mod) for x in s.elts)
+        return self.ev(s, env, mod)
+
+    def getitem(self, obj, key):
+        if isinstance(obj, PInst):
+            o, f = obj.cls.find("__getitem__")
+            if not isinstance(f, PFunc):
+                self.raise_(TypeError, "'%s' object is not subscriptable" % obj.cls.name)
+            return self.call_func(f, [obj, key], {})
+        if isinstance(obj, PClass):
+            if obj.enum_members is not None:
+                for m in obj.enum_members:
+                    if m.attrs["_name_"] == key:
+                        return m
+                self.raise_(KeyError, key)
+            raise MachUnknown("subscript of class %s" % obj.name)
+        if isinstance(obj, POpaque):
+            return POpaque(obj.text + "[...]")
+        if isinstance(obj, _INTERP):
+            self.raise_(TypeError, "object is not subscriptable")
+        try:
+            return obj[key]
+        except Exception as e:
+            raise PyRaise(e)
+
+    def setitem(self, obj, key, v):
+        if isinstance(obj, PInst):
+            o, f = obj.cls.find("__setitem__")
+            if not isinstance(f, PFunc):
+                self.raise_(TypeError, "'%s' object does not support item assignment" % obj.cls.name)
+            self.call_func(f, [obj, key, v], {})
+            return
+        if isinstance(obj, _INTERP):
+            self.raise_(TypeError, "object does not support item assignment")
+        try:
+            obj[key] = v
+        except Exception as e:
+            raise PyRaise(e)
+
+    def ev_Subscript(self, n, env, mod):
+        return self.getitem(self.ev(n.value, env, mod), self.ev_slice(n.slice, env, mod))
+
+    def binop(self, f, a, b, op):
+        if isinstance(a, _INTERP) or isinstance(b, _INTERP):
+            if isinstance(op, ast.Mod) and isinstance(a, str):
+                pass          # '%s' % obj: repr/str of the evaluated object
+            elif isinstance(a, (list, tuple)) or isinstance(b, (list, tuple)):
+                pass
+            else:
+                for x, y, nm in ((a, b, "__%s__"), (b, a, "__r%s__")):
+                    if isinstance(x, PInst):
+                        o, m = x.cls.find(nm % _DUNDER.get(type(op), "?"))
+                        if isinstance(m, PFunc):
+                            return self.call_func(m, [x, y], {})
+                self.raise_(TypeError, "unsupported operand type(s)")
+        if isinstance(op, ast.Pow) and isinstance(b, int) and abs(b) > 8192:
+            raise MachUnknown("huge exponent")
+        if isinstance(op, ast.LShift) and isinstance(b, int) and b > (1 << 16):
+            raise MachUnknown("huge shift")
+        if isinstance(op, ast.Mult):
+            for x, y in ((a, b), (b, a)):
+                if isinstance(x, (list, tuple, bytes, bytearray, str)) and isinstance(y, int) and y * max(1, len(x)) > (1 << 22):
+                    raise MachUnknown("huge repetition")
+        try:
+            return f(a, b)
+        except Exception as e:
+            raise PyRaise(e)
+
+    def ev_BinOp(self, n, env, mod):
+        f = _BINOPS.get(type(n.op))
+        if f is None:
+            raise MachUnknown("operator")
+        return self.binop(f, self.ev(n.left, env, mod), self.ev(n.right, env, mod), n.op)
+
+    def ev_UnaryOp(self, n, env, mod):
+        v = self.ev(n.operand, env, mod)
+        if isinstance(n.op, ast.Not):
+            return not self.truth(v)
+        if isinstance(v, _INTERP):
+            self.raise_(TypeError, "bad operand type for unary operator")
+        try:
+            if isinstance(n.op, ast.USub):
+                return -v
+            if isinstance(n.op, ast.UAdd):
+                return +v
+            return ~v
+        except Exception as e:
+            raise PyRaise(e)
+
+    def ev_BoolOp(self, n, env, mod):
+        is_and = isinstance(n.op, ast.And)
+        v = None
+        for e in n.values:
+            v = self.ev(e, env, mod)
+            t = self.truth(v)
+            if is_and and not t:
+                return v
+            if not is_and and t:
+                return v
+        return v
+
+    def eq(self, a, b):
+        for x, y in ((a, b), (b, a)):
+            if isinstance(x, PInst):
+                o, f = x.cls.find("__eq__")
+                if isinstance(f, PFunc):
+                    r = self.call_func(f, [x, y], {})
+                    if r is not NotImplemented:
+                        return self.truth(r)
+        try:
+            return bool(a == b)
+        except Exception as e:
+            raise PyRaise(e)
+
+    def contains(self, c, x):
+        if isinstance(c, PInst):
+            o, f = c.cls.find("__contains__")
+            if isinstance(f, PFunc):
+                return self.truth(self.call_func(f, [c, x], {}))
+            self.raise_(TypeError, "argument of type '%s' is not iterable" % c.cls.name)
+        if isinstance(c, PClass):
+            return any(m is x for m in self.iterate(c))
+        if isinstance(c, _INTERP):
+            self.raise_(TypeError, "argument is not iterable")
+        try:
+            return x in c
+        except Exception as e:
+            raise PyRaise(e)
+
+    def ev_Compare(self, n, env, mod):
+        left = self.ev(n.left, env, mod)
+        for op, c in zip(n.ops, n.comparators):
+            right = self.ev(c, env, mod)
+            if isinstance(op, ast.Is):
+                r = left is right
+            elif isinstance(op, ast.IsNot):
+                r = left is not right
+            elif isinstance(op, ast.Eq):
+                r = self.eq(left, right)
+            elif isinstance(op, ast.NotEq):
+                r = not self.eq(left, right)
+            elif isinstance(op, ast.In):
+                r = self.contains(right, left)
+            elif isinstance(op, ast.NotIn):
+                r = not self.contains(right, left)
+            else:
+                if isinstance(left, _INTERP) or isinstance(right, _INTERP):
+                    done = False
+                    for x, y, names in ((left, right, _CMP_DUNDER), (right, left, _CMP_RDUNDER)):
+                        if isinstance(x, PInst):
+                            o, f = x.cls.find(names[type(op)])
+                            if isinstance(f, PFunc):
+                                r = self.truth(self.call_func(f, [x, y], {}))
+                                done = True
+                                break
+                    if not done:
+                        self.raise_(TypeError, "ordering not supported between these instances")
+                else:
+                    try:
+                        r = _CMP_HOST[type(op)](left, right)
+                    except Exception as e:
+                        raise PyRaise(e)
+            if not r:
+                return False
+            left = right
+        return True
+
+    def ev_IfExp(self, n, env, mod):
+        return self.ev(n.body, env, mod) if self.truth(self.ev(n.test, env, mod)) else self.ev(n.orelse, env, mod)
+
+    def seq(self, elts, env, mod):
+        out = []
+        for e in elts:
+            if isinstance(e, ast.Starred):
+                out.extend(self.iterate(self.ev(e.value, env, mod)))
+            else:
+                out.append(self.ev(e, env, mod))
+        return out
+
+    def ev_Tuple(self, n, env, mod):
+        return tuple(self.seq(n.elts, env, mod))
+
+    def ev_List(self, n, env, mod):
+        return self.seq(n.elts, env, mod)
+
+    def ev_Set(self, n, env, mod):
+        try:
+            return set(self.seq(n.elts, env, mod))
+        except TypeError as e:
+            raise PyRaise(e)
+
+    def ev_Dict(self, n, env, mod):
+        d = {}
+        for k, v in zip(n.keys, n.values):
+            try:
+                if k is None:
+                    d.update(self.ev(v, env, mod))
+                else:
+                    d[self.ev(k, env, mod)] = self.ev(v, env, mod)
+            except (PyRaise, MachUnknown, MachTimeout):
+                raise
+            except Exception as e:
+                raise PyRaise(e)
+        return d
+
+    def comp(self, gens, env, mod, emit, outer=None):
+        if not gens:
+            emit(env)
+            return
+        g = gens[0]
+        if getattr(g, "is_async", 0):
+            raise MachUnknown("async comprehension")
+        for v in self.iterate(self.ev(g.iter, outer if outer is not None else env, mod)):
+            self.tick()
+            self.store(g.target, v, env, mod)
+            if all(self.truth(self.ev(c, env, mod)) for c in g.ifs):
+                self.comp(gens[1:], env, mod, emit)
+
+    def comp_env(self, env):
+        # a comprehension has its own scope; like a function it does not see an enclosing class body (except for
+        # the outermost iterable, which the class-level uses in this code base do not rely on beyond plain names)
+        return Env(env)
+
+    def ev_ListComp(self, n, env, mod):
+        out = []
+        e2 = self.comp_env(env)
+        self.comp(n.generators, e2, mod, lambda e: out.append(self.ev(n.elt, e, mod)), outer=env)
+        return out
+
+    def ev_GeneratorExp(self, n, env, mod):
+        return self.ev_ListComp(n, env, mod)       # evaluated eagerly (the evaluated code is pure at these places)
+
+    def ev_SetComp(self, n, env, mod):
+        try:
+            return set(self.ev_ListComp(n, env, mod))
+        except TypeError as e:
+            raise PyRaise(e)
+
+    def ev_DictComp(self, n, env, mod):
+        out = {}
+        e2 = self.comp_env(env)
+
+        def emit(e):
+            k = self.ev(n.key, e, mod)
+            try:
+                out[k] = self.ev(n.value, e, mod)
+            except TypeError as ex:
+                raise PyRaise(ex)
+        self.comp(n.generators, e2, mod, emit, outer=env)
+        return out
+
+    def ev_Lambda(self, n, env, mod):
+        return self.make_func(n, env, mod, "<lambda>")
+
+    def ev_NamedExpr(self, n, env, mod):
+        v = self.ev(n.value, env, mod)
+        self.store(n.target, v, env, mod)
+        return v
+
+    def ev_JoinedStr(self, n, env, mod):
+        out = []
+        for v in n.values:
+            if isinstance(v, ast.Constant):
+                out.append(str(v.value))
+            elif isinstance(v, ast.FormattedValue):
+                out.append(self.ev_FormattedValue(v, env, mod))
+            else:
+                raise MachUnknown("f-string part")
+        return "".join(out)
+
+    def ev_FormattedValue(self, n, env, mod):
+        val = self.ev(n.value, env, mod)
+        if n.conversion == 114:
+            val = repr(val)
+        elif n.conversion == 115:
+            val = str(val)
+        elif n.conversion == 97:
+            val = ascii(val)
+        spec = self.ev_JoinedStr(n.format_spec, env, mod) if n.format_spec is not None else ""
+        try:
+            return format(val, spec)
+        except Exception as e:
+            raise PyRaise(e)
+
+    def gen_frame(self, env):
+        e = env
+        while e is not None:
+            if "$gen" in e.vars:
+                return e.vars["$gen"]
+            if "$func" in e.vars:
+                break
+            e = e.parent
+        raise MachUnknown("yield outside a generator function")
+
+    def ev_Yield(self, n, env, mod):
+        self.tick()
+        self.gen_frame(env).append(self.ev(n.value, env, mod) if n.value is not None else None)
+        return None
+
+    def ev_YieldFrom(self, n, env, mod):
+        out = self.gen_frame(env)
+        for v in self.iterate(self.ev(n.value, env, mod)):
+            self.tick()
+            out.append(v)
+        return None
+
+    def ev_Starred(self, n, env, mod):
+        raise MachUnknown("starred expression outside a display/call")
+
+    def ev_Call(self, n, env, mod):
+        fn = n.func
+        if isinstance(fn, ast.Name) and fn.id == "super" and not n.args and not n.keywords and self.find_env("super", env) is None:
+            f = self.cur_func(env)
+            if f is None or f.owner is None:
+                self.raise_(RuntimeError, "super(): no arguments")
+            a = f.node.args
+            first = (list(getattr(a, "posonlyargs", [])) + list(a.args))
+            if not first:
+                self.raise_(RuntimeError, "super(): no arguments")
+            e = env
+            while e is not None and "$func" not in e.vars:
+                e = e.parent
+            return PSuper(f.owner, e.vars.get(first[0].arg))
+        f = self.ev(fn, env, mod)
+        args = []
+        for a in n.args:
+            if isinstance(a, ast.Starred):
+                args.extend(self.iterate(self.ev(a.value, env, mod)))
+            else:
+                args.append(self.ev(a, env, mod))
+        kw = {}
+        for k in n.keywords:
+            if k.arg is None:
+                d = self.ev(k.value, env, mod)
+                if not isinstance(d, dict):
+                    self.raise_(TypeError, "argument after ** must be a mapping")
+                for kk, vv in d.items():
+                    if kk in kw:
+                        self.raise_(TypeError, "got multiple values for keyword argument '%s'" % kk)
+                    kw[kk] = vv
+            else:
+                kw[k.arg] = self.ev(k.value, env, mod)
+        return self.call(f, args, kw)
+
+
+_DUNDER = {ast.Add: "add", ast.Sub: "sub", ast.Mult: "mul", ast.FloorDiv: "floordiv", ast.Mod: "mod", ast.Div: "truediv",
+           ast.BitOr: "or", ast.BitAnd: "and", ast.BitXor: "xor", ast.LShift: "lshift", ast.RShift: "rshift", ast.Pow: "pow"}
+_CMP_HOST = {ast.Lt: _op.lt, ast.LtE: _op.le, ast.Gt: _op.gt, ast.GtE: _op.ge}
+_CMP_DUNDER = {ast.Lt: "__lt__", ast.LtE: "__le__", ast.Gt: "__gt__", ast.GtE: "__ge__"}
+_CMP_RDUNDER = {ast.Lt: "__gt__", ast.LtE: "__ge__", ast.Gt: "__lt__", ast.GtE: "__le__"}
+
+
+# ====================================================== witness evaluation (semantic rules)
+#
+# The laws of the property are decided by EVALUATING codec.py (with the concrete evaluator above) on witness
+# definitions built through the codec's public construction protocol - the one test_codec.py and
+# trxd_proto.py use: Field subclasses(name, len=, offset=, mult=, filler=), BitFieldSet(set=(BitField(name,
+# bl=, val=) | BitField.Spare(bl=)), order=, len=), Envelope subclasses with STRUCT, Envelope(check_len=),
+# .f(name), Sequence(item=), the get_pres / get_len / get_val callbacks, from_bytes / to_bytes, Envelope.c -
+# and comparing every outcome with the checker's own reference model of the documented behaviour.  How the
+# methods are written (helper methods, loops vs comprehensions, cached tuples, extra assertions, guards that
+# only trigger where the original code diverges) does not enter.
+
+LAB_SRC = '''
+class Boom(codec.Field):
+    """a field whose converters raise what they are told to"""
+    def __init__(self, name, exc, **kw):
+        codec.Field.__init__(self, name, **kw)
+        self.exc = exc
+    def _from_bytes(self, vals, data):
+        raise self.exc
+    def _to_bytes(self, vals):
+        raise self.exc
+
+class Probe(codec.Field):
+    """records what the base class hands to the decoder, emits what it is told to"""
+    def __init__(self, name, out=b'', **kw):
+        codec.Field.__init__(self, name, **kw)
+        self.out = out
+        self.seen = []
+        self.asked = 0
+    def _from_bytes(self, vals, data):
+        self.seen.append(bytes(data))
+        vals[self.name] = bytes(data)
+    def _to_bytes(self, vals):
+        self.asked += 1
+        return self.out
+'''
+
+INT_TABLE = {"Uint": (1, "big", False), "Int": (1, "big", True),
+             "Uint16BE": (2, "big", False), "Uint16LE": (2, "little", False),
+             "Uint32BE": (4, "big", False), "Uint32LE": (4, "little", False),
+             "Int16BE": (2, "big", True), "Int16LE": (2, "little", True),
+             "Int32BE": (4, "big", True), "Int32LE": (4, "little", True)}
+
+
+class RefErr(Exception):
+    def __init__(self, *classes):
+        Exception.__init__(self, classes)
+        self.classes = classes
+
+
+# ---- reference model (the documented behaviour of the building blocks) ----------------------------------
+
+class RField:
+    kind = "field"
+
+    def __init__(self, name, len=0, pres=None, getlen=None, getval=None):
+        self.name, self.len, self.pres, self.getlen, self.getval = name, len, pres, getlen, getval
+
+    def absent(self, vals):
+        return self.pres is not None and self.pres(vals) is False
+
+    def length(self, vals, data):
+        if self.getlen is not None:
+            return self.getlen(vals, data)
+        return len(data) if self.len == 0 else self.len
+
+    def value(self, vals):
+        try:
+            return self.getval(vals) if self.getval is not None else vals[self.name]
+        except KeyError:
+            raise RefErr("KeyError")
+
+    def from_bytes(self, vals, data):
+        if self.absent(vals):
+            return 0
+        n = self.length(vals, data)
+        if len(data) < n:
+            raise RefErr("DecodeError")
+        self.dec(vals, data[:n])
+        return n
+
+    def to_bytes(self, vals):
+        if self.absent(vals):
+            return b""
+        d = self.enc(vals)
+        if self.len > 0 and len(d) != self.len:
+            raise RefErr("EncodeError")
+        return d
+
+    def apply_callbacks(self, lab, obj):
+        for attr, cb in (("get_pres", self.pres), ("get_len", self.getlen), ("get_val", self.getval)):
+            if cb is not None:
+                lab.m.setattr_(obj, attr, cb)
+        return obj
+
+
+class RInt(RField):
+    def __init__(self, cls, name, len=None, offset=0, mult=1, **kw):
+        RField.__init__(self, name, len if len is not None else INT_TABLE[cls][0], **kw)
+        self.cls, self.kwlen, self.offset, self.mult = cls, len, offset, mult
+        self.bo, self.sign = INT_TABLE[cls][1], INT_TABLE[cls][2]
+
+    def build(self, lab):
+        kw = {}
+        if self.kwlen is not None:
+            kw["len"] = self.kwlen
+        if self.offset != 0:
+            kw["offset"] = self.offset
+        if self.mult != 1:
+            kw["mult"] = self.mult
+        return self.apply_callbacks(lab, lab.new(self.cls, self.name, **kw))
+
+    def dec(self, vals, data):
+        vals[self.name] = int.from_bytes(data, self.bo, signed=self.sign) * self.mult + self.offset
+
+    def enc(self, vals):
+        raw = (self.value(vals) - self.offset) // self.mult
+        try:
+            return raw.to_bytes(self.len, self.bo, signed=self.sign)
+        except OverflowError:
+            raise RefErr("OverflowError", "EncodeError")
+
+    def __repr__(self):
+        return "%s(%r%s%s%s)" % (self.cls, self.name, ", len=%d" % self.kwlen if self.kwlen is not None else "",
+                                 ", offset=%d" % self.offset if self.offset else "", ", mult=%d" % self.mult if self.mult != 1 else "")
+
+
+class RBuf(RField):
+    def build(self, lab):
+        kw = {"len": self.len} if self.len else {}
+        return self.apply_callbacks(lab, lab.new("Buf", self.name, **kw))
+
+    def dec(self, vals, data):
+        vals[self.name] = data
+
+    def enc(self, vals):
+        return self.value(vals)
+
+    def __repr__(self):
+        return "Buf(%r%s%s%s)" % (self.name, ", len=%d" % self.len if self.len else "", ", get_len=<cb>" if self.getlen else "",
+                                  ", get_pres=<cb>" if self.pres else "")
+
+
+class RSpare(RField):
+    def __init__(self, name, len=0, filler=None, **kw):
+        RField.__init__(self, name, len, **kw)
+        self.filler = filler
+
+    def build(self, lab):
+        kw = {"len": self.len} if self.len else {}
+        if self.filler is not None:
+            kw["filler"] = self.filler
+        return self.apply_callbacks(lab, lab.new("Spare", self.name, **kw))
+
+    def dec(self, vals, data):
+        pass
+
+    def enc(self, vals):
+        return (self.filler if self.filler is not None else b"\x00") * self.length(vals, b"")
+
+    def __repr__(self):
+        return "Spare(%r, len=%d%s)" % (self.name, self.len, ", filler=%r" % self.filler if self.filler is not None else "")
+
+
+class RBits(RField):
+    """fields: [(name | None for a spare, bit length, fixed value | None)]"""
+
+    def __init__(self, fields, order=None, len=0):
+        self.fields, self.order, self.kwlen = fields, order, len
+        fs = list(fields)[::-1] if order in ("little", "lsb") else list(fields)
+        total = sum(f[1] for f in fs)
+        n = len or -(-total // 8)
+        RField.__init__(self, "<set>", n)
+        self.overflow = total > 8 * n
+        rem = 8 * n
+        self.lay = []
+        for name, bl, val in fs:
+            self.lay.append((name, rem - bl, (1 << bl) - 1, val))
+            rem -= bl
+
+    def build(self, lab):
+        fs = []
+        for name, bl, val in self.fields:
+            if name is None:
+                fs.append(lab.new("BitField.Spare", bl=bl))
+            elif val is not None:
+                fs.append(lab.new("BitField", name, bl=bl, val=val))
+            else:
+                fs.append(lab.new("BitField", name, bl=bl))
+        kw = {"set": tuple(fs)}
+        if self.order is not None:
+            kw["order"] = self.order
+        if self.kwlen:
+            kw["len"] = self.kwlen
+        return lab.new("BitFieldSet", **kw)
+
+    def dec(self, vals, data):
+        blob = int.from_bytes(data, "big")
+        for name, off, mask, val in self.lay:
+            if name is None:
+                continue
+            vals[name] = (blob >> off) & mask
+            if val is not None and vals[name] != val:
+                raise RefErr("DecodeError")
+
+    def enc(self, vals):
+        blob = 0
+        for name, off, mask, val in self.lay:
+            if name is None:
+                continue
+            if val is None and name not in vals:
+                raise RefErr("KeyError")
+            blob |= ((val if val is not None else vals[name]) & mask) << off
+        return blob.to_bytes(self.len, "big")
+
+    def __repr__(self):
+        return "BitFieldSet(set=(%s)%s%s)" % (", ".join("Spare(%d)" % bl if n is None else "%s:%d%s" % (n, bl, "=%d" % v if v is not None else "")
+                                                         for n, bl, v in self.fields),
+                                              ", order=%r" % self.order if self.order is not None else "", ", len=%d" % self.kwlen if self.kwlen else "")
+
+
+class REnv:
+    def __init__(self, fields, check_len=True, name="W"):
+        self.fields, self.check_len, self.name = fields, check_len, name
+
+    def build(self, lab, check_len=_MISSING):
+        cls = PClass(lab.m, self.name, [lab.cls("Envelope")], {"STRUCT": tuple(f.build(lab) for f in self.fields)})
+        cl = self.check_len if check_len is _MISSING else check_len
+        return lab.m.call(cls, [], {} if cl else {"check_len": False})
+
+    def decode(self, vals, data, offset=0):
+        try:
+            for f in self.fields:
+                offset += f.from_bytes(vals, data[offset:])
+        except Exception:
+            raise RefErr("DecodeError")
+        if self.check_len and len(data) != offset:
+            raise RefErr("DecodeError")
+        return offset
+
+    def encode(self, vals):
+        try:
+            return b"".join(f.to_bytes(vals) for f in self.fields)
+        except Exception:
+            raise RefErr("EncodeError")
+
+    def __repr__(self):
+        return "Envelope%s(%s)" % ("" if self.check_len else "[check_len=False]", ", ".join(repr(f) for f in self.fields))
+
+
+class REnvF(RField):
+    def __init__(self, env, name, len=0, **kw):
+        RField.__init__(self, name, len, **kw)
+        self.env = env
+
+    def build(self, lab):
+        e = self.env.build(lab)
+        kw = {"len": self.len} if self.len else {}
+        return self.apply_callbacks(lab, lab.m.call(lab.m.getattr_(e, "f"), [self.name], kw))
+
+    def dec(self, vals, data):
+        vals[self.name] = {}
+        self.env.decode(vals[self.name], data)
+
+    def enc(self, vals):
+        return self.env.encode(self.value(vals))
+
+    def __repr__(self):
+        return "%r.f(%r%s%s)" % (self.env, self.name, ", len=%d" % self.len if self.len else "", ", get_len=<cb>" if self.getlen else "")
+
+
+class RSeqF(RField):
+    def __init__(self, item, name, len=0, **kw):
+        RField.__init__(self, name, len, **kw)
+        self.item = item
+        self.item.check_len = False          # Sequence switches its item's tail check off
+
+    def build_seq(self, lab):
+        return lab.new("Sequence", item=self.item.build(lab, check_len=True))
+
+    def build(self, lab):
+        s = self.build_seq(lab)
+        kw = {"len": self.len} if self.len else {}
+        return self.apply_callbacks(lab, lab.m.call(lab.m.getattr_(s, "f"), [self.name], kw))
+
+    def dec_list(self, data):
+        out, off = [], 0
+        while off < len(data):
+            out.append({})
+            n = self.item.decode(out[-1], data[off:])
+            if n == 0:
+                raise RefErr("<diverges>")
+            off += n
+        return out
+
+    def dec(self, vals, data):
+        vals[self.name] = self.dec_list(data)
+
+    def enc(self, vals):
+        return b"".join(self.item.encode(v) for v in self.value(vals))
+
+    def __repr__(self):
+        return "Sequence(item=%r).f(%r)" % (self.item, self.name)
+
+
+# ---- the laboratory ------------------------------------------------------------------------------------
+
+class Lab:
+    FUEL = 120000            # per evaluated call
+    BUILD_FUEL = 2000000      # for building witness definitions between evaluations
+
+    def __init__(self, repo):
+        self.repo = repo
+        self.m = Mach(repo, fuel=self.BUILD_FUEL)
+        self.codec = self.m.module("codec")
+        self.aux = self.m.exec_source(LAB_SRC, "<c16 witnesses>", {"codec": self.codec})
+        self.evals = 0
+
+    def cls(self, path):
+        v = self.codec
+        for p in path.split("."):
+            v = self.m.getattr_(v, p)
+        if not isinstance(v, PClass):
+            raise MachUnknown("codec.%s is not a class" % path)
+        return v
+
+    def new(self, path, *args, **kw):
+        c = self.aux.ns[path] if path in self.aux.ns else self.cls(path)
+        return self.m.call(c, list(args), kw)
+
+    def run(self, thunk):
+        """outcome of one evaluation: ('ok', value) | ('raise', class name) | ('timeout',)"""
+        if Family.current is not None and Family.current.bad is not None:
+            return ("skipped",)
+        self.m.fuel = self.FUEL
+        self.m.depth = 0
+        self.m.exc_stack = []
+        self.evals += 1
+        try:
+            return ("ok", thunk())
+        except PyRaise as e:
+            return ("raise", e.cls_name)
+        except MachTimeout:
+            return ("timeout",)
+        except RecursionError:
+            raise MachUnknown("recursion too deep")
+        finally:
+            self.m.fuel = self.BUILD_FUEL
+            self.m.depth = 0
+
+    def meth(self, obj, name, *args, **kw):
+        return self.m.call(self.m.getattr_(obj, name), list(args), kw)
+
+    # field level
+    def f_dec(self, f, data, vals=None):
+        def go():
+            v = dict(vals or {})
+            n = self.meth(f, "from_bytes", v, data)
+            return (norm(v), n)
+        return self.run(go)
+
+    def f_enc(self, f, vals):
+        return self.run(lambda: norm(self.meth(f, "to_bytes", dict(vals))))
+
+    # envelope level (public API: from_bytes(data) fills .c and returns the consumed length; to_bytes() encodes .c)
+    def e_dec(self, e, data):
+        def go():
+            n = self.meth(e, "from_bytes", data)
+            return (norm(self.m.getattr_(e, "c")), n)
+        return self.run(go)
+
+    def e_enc(self, e, vals):
+        def go():
+            self.m.setattr_(e, "c", clone_vals(vals))
+            return norm(self.meth(e, "to_bytes"))
+        return self.run(go)
+
+
+def norm(v, _stack=()):
+    """comparable copy of a decoded value (a structure that contains itself is cut at the cycle)"""
+    if isinstance(v, (bytearray, memoryview)):
+        return bytes(v)
+    if isinstance(v, (dict, list, tuple)):
+        if id(v) in _stack or len(_stack) > 40:
+            return "<cycle>"
+        st = _stack + (id(v),)
+        if isinstance(v, dict):
+            return {k: norm(x, st) for k, x in v.items()}
+        if isinstance(v, list):
+            return [norm(x, st) for x in v]
+        return tuple(norm(x, st) for x in v)
+    return v
+
+
+def clone_vals(v):
+    if isinstance(v, dict):
+        return {k: clone_vals(x) for k, x in v.items()}
+    if isinstance(v, list):
+        return [clone_vals(x) for x in v]
+    return v
+
+
+def ref_fdec(r, data, vals=None):
+    v = dict(vals or {})
+    out = ref_out(lambda: r.from_bytes(v, data))
+    return ("ok", (v, out[1])) if out[0] == "ok" else out
+
+
+def ref_out(thunk):
+    try:
+        return ("ok", thunk())
+    except RefErr as e:
+        return ("raise",) + tuple(e.classes)
+
+
+def agree(got, want):
+    """does the evaluated outcome agree with the reference outcome (a reference rejection may allow several classes)"""
+    if want[0] == "ok":
+        return got == want
+    return got[0] == "raise" and got[1] in want[1:]
+
+
+def fmt_out(o):
+    if o[0] == "ok":
+        s = repr(o[1])
+        return "-> " + (s if len(s) <= 120 else s[:117] + "...")
+    if o[0] == "raise":
+        return "raises " + " | ".join(o[1:])
+    return "does not terminate (step budget exhausted)"
+
+
+class Family:
+    """one obligation: a law evaluated over a family of witnesses; found = first counterexample"""
+
+    current = None      # the family under evaluation: once it has a counterexample its remaining witnesses are not evaluated
+
+    def __init__(self, rule, func, key):
+        Family.current = self
+        self.rule, self.func, self.key = rule, func, key
+        self.n = 0
+        self.bad = None
+        self.unknown = None
+        self.optional = False      # an optional family that cannot be evaluated does not withhold the verdict
+
+    def check(self, what, got, want):
+        self.n += 1
+        if self.bad is None and not agree(got, want):
+            self.bad = "%s: codec %s, documented behaviour %s" % (what, fmt_out(got), fmt_out(want))
+
+    def fail(self, text):
+        self.n += 1
+        if self.bad is None:
+            self.bad = text
+
+    def ok(self):
+        self.n += 1
+
+
+def bit_vectors(fields):
+    """value assignments for a bit-field set: boundary patterns, one field saturated at a time, over-wide values"""
+    named = [(n, bl) for n, bl, v in fields if n is not None]
+    out = [{n: 0 for n, bl in named}, {n: (1 << bl) - 1 for n, bl in named},
+           {n: (0xAAAAAAAAAAAAAAAA >> 3) & ((1 << bl) - 1) for n, bl in named},
+           {n: 0x5555555555555555 & ((1 << bl) - 1) for n, bl in named}]
+    for i, (n, bl) in enumerate(named):
+        v = {m: 0 for m, _ in named}
+        v[n] = (1 << bl) - 1
+        out.append(v)
+        v = {m: (1 << b) - 1 for m, b in named}
+        v[n] = 0
+        out.append(v)
+        v = {m: 0 for m, _ in named}
+        v[n] = 1
+        out.append(v)
+    wide = [{n: ((1 << bl) - 1) + (1 << bl) * 5 for n, bl in named},          # all bits set below and above the width
+            {n: (1 << bl) for n, bl in named}]                                 # only the first bit above the width
+    for i, (n, bl) in enumerate(named):
+        v = {m: 0 for m, _ in named}
+        v[n] = (1 << (bl + 3)) | 1
+        wide.append(v)
+    return out, wide
+
+
+BIT_LAYOUTS = [
+    ([("a", 8, None)], 0), ([("a", 4, None), ("b", 4, None)], 0), ([("a", 1, None), ("b", 7, None)], 0),
+    ([("f4", 4, None), ("f1", 1, None), ("f3", 3, None)], 0),
+    ([("f4a", 4, None), ("f8", 8, None), ("f4b", 4, None)], 0),
+    ([("a", 3, None), ("b", 5, None), ("c", 8, None)], 0),
+    ([("f1", 1, None), ("f2", 2, None)], 0),
+    ([("f12", 12, None), ("f4", 4, None), ("f2", 2, None)], 0),
+    ([("a", 7, None)], 0), ([("a", 9, None)], 0), ([("a", 32, None)], 0),
+    ([("b%d" % i, 1, None) for i in range(8)], 0),
+    ([(None, 4, None), ("f4", 4, None)], 0),
+    ([("f4", 4, None), (None, 1, None), ("f3", 3, None)], 0),
+    ([("v", 4, 2), ("z", 1, 0), ("f3", 3, None)], 0),
+    ([("ver", 4, 0), (None, 1, None), ("tn", 3, None)], 0),
+    ([("ver", 4, 2), (None, 1, None), ("tn", 3, None), ("batch", 1, None), (None, 1, None), ("trxn", 6, None)], 0),
+    ([("ver", 4, None), ("flag", 1, None)], 2),
+    ([("a", 4, None), ("b", 4, None)], 3),
+    ([("a", 5, None), ("b", 12, None), (None, 3, None), ("c", 6, None), ("d", 6, None)], 0),
+    ([("x", 13, None), ("y", 11, None)], 0),
+    ([("p", 2, None), (None, 3, None), ("q", 10, 0x2AA), ("r", 2, None)], 0),
+]
+BIT_ORDERS = [None, "big", "msb", "little", "lsb"]
+
+
+def w_bits(lab, fams):
+    for fields, ln in BIT_LAYOUTS:
+        for order in BIT_ORDERS:
+            r = RBits(fields, order, ln)
+            fam = Family("C16.R1", "BitFieldSet", "bit-field set %r: offsets/masks follow the declared order from the most significant end, "
+                         "to_bytes = OR of (value & mask) << offset emitted big-endian in ceil(bits/8) octets (or the given length), fixed values are "
+                         "encoded and checked (DecodeError), spares encode 0 and are ignored, from_bytes(to_bytes(v)) == v, over-wide values are "
+                         "truncated without touching neighbours" % (r,))
+            fams.append(fam)
+            try:
+                built = lab.run(lambda: r.build(lab))
+                if built[0] != "ok":
+                    fam.fail("the definition is rejected: %s" % fmt_out(built))
+                    continue
+                s = built[1]
+                normal, wide = bit_vectors(fields)
+                pad = b"\xee\xee\xee"
+                seen = set()
+                for vals in normal + wide:
+                    want = ref_out(lambda: r.to_bytes(vals))
+                    fam.check("to_bytes(%r)" % (vals,), lab.f_enc(s, vals), want)
+                    if want[0] == "ok" and want[1] not in seen:
+                        seen.add(want[1])
+                        fam.check("from_bytes(%r + 3 further octets)" % (want[1],), lab.f_dec(s, want[1] + pad), ref_fdec(r, want[1] + pad))
+                for pat in (b"\x00", b"\xff", b"\xa5", b"\x5a", b"\x01\x23\x45\x67", b"\x80\x00\x00\x01", b"\xfe\xdc\xba\x98"):
+                    data = (pat * 4)[:r.len]
+                    if data in seen:
+                        continue
+                    seen.add(data)
+                    wd = ref_fdec(r, data)
+                    fam.check("from_bytes(%r)" % (data,), lab.f_dec(s, data), wd)
+                    if wd[0] == "ok":
+                        fam.check("to_bytes(from_bytes(%r)) reproduces the canonical octets" % (data,), lab.f_enc(s, wd[1][0]), ("ok", r.to_bytes(wd[1][0])))
+                fam.check("from_bytes(%d octets: short input)" % (r.len - 1), lab.f_dec(s, b"\x00" * (r.len - 1)), ("raise", "DecodeError"))
+            except MachUnknown as e:
+                fam.unknown = str(e)
+            except PyRaise as e:
+                fam.fail("a witness definition or its evaluation raises %s outside any modelled outcome" % e.cls_name)
+            except MachTimeout:
+                fam.fail("a witness definition or its evaluation does not terminate (step budget exhausted)")
+    # definition-time rejections
+    fam = Family("C16.R1", "BitFieldSet.__init__", "a bit-field set whose fields do not fit the given length is rejected when it is defined")
+    fams.append(fam)
+    try:
+        for fields, ln in (([("f6", 6, None), ("f4", 4, None)], 1), ([("a", 9, None)], 1), ([("a", 8, None), ("b", 8, None), ("c", 1, None)], 2)):
+            for order in (None, "lsb"):
+                r = RBits(fields, order, ln)
+                got = lab.run(lambda: r.build(lab))
+                if got[0] == "ok":
+                    fam.fail("%r is accepted" % (r,))
+                elif got[0] == "timeout":
+                    fam.fail("%r: definition does not terminate" % (r,))
+                else:
+                    fam.ok()
+    except MachUnknown as e:
+        fam.unknown = str(e)
+    except PyRaise as e:
+        fam.fail("a witness definition or its evaluation raises %s outside any modelled outcome" % e.cls_name)
+    except MachTimeout:
+        fam.fail("a witness definition or its evaluation does not terminate (step budget exhausted)")
+
+
+def int_raws(n, signed):
+    lo, hi = (-(1 << (8 * n - 1)), (1 << (8 * n - 1)) - 1) if signed else (0, (1 << (8 * n)) - 1)
+    pat = int.from_bytes(bytes(range(1, n + 1)), "big")
+    cand = {lo, lo + 1, 0, 1, 2, 0x7f, 0x80, 0xff, 0x100, hi - 1, hi, hi // 2, hi // 2 + 1, pat, (1 << 53) + 1, (1 << 63) - 1, (1 << 62) + 3}
+    if signed:
+        cand |= {-1, -2, -0x80, -0x81, -pat, lo // 2, -((1 << 53) + 1)}
+    return sorted(x for x in cand if lo <= x <= hi), [lo - 1, hi + 1, hi + 2 + (1 << 8 * n)] + ([-1] if not signed else [])
+
+
+INT_WIDTHS = [(c, None) for c in sorted(INT_TABLE)] + [(c, n) for c in ("Uint", "Int") for n in (2, 3, 4, 5, 6, 7, 8)] + \
+    [("Uint16LE", 3), ("Int32LE", 8), ("Uint32BE", 2)]
+INT_TRANSFORMS = [(0, 1), (0, -1), (5, 1), (-3, 4), (100, -2)]
+
+
+def w_ints(lab, fams):
+    for cls, kwlen in INT_WIDTHS:
+        n0, bo, sg = INT_TABLE[cls]
+        n = kwlen or n0
+        fam = Family("C16.R2", cls, "integer field %s%s (%d octet(s), %s-endian, %s): for offset/mult in %s and boundary raw values, "
+                     "to_bytes(raw*mult+offset) is the raw integer in that width/order/sign, from_bytes of those octets returns the value "
+                     "consuming exactly %d octet(s), and an unencodable value is rejected with EncodeError by the envelope" % (
+                         cls, "(len=%d)" % kwlen if kwlen else "", n, bo, "signed" if sg else "unsigned", INT_TRANSFORMS, n))
+        fams.append(fam)
+        try:
+            for off, mult in INT_TRANSFORMS:
+                r = RInt(cls, "x", kwlen, off, mult)
+                built = lab.run(lambda: r.build(lab))
+                if built[0] != "ok":
+                    fam.fail("%r: the definition is rejected: %s" % (r, fmt_out(built)))
+                    continue
+                f = built[1]
+                good, bad = int_raws(n, sg)
+                for raw in good:
+                    v = raw * mult + off
+                    octets = raw.to_bytes(n, bo, signed=sg)
+                    fam.check("%r.to_bytes({x: %d})" % (r, v), lab.f_enc(f, {"x": v}), ("ok", octets))
+                    fam.check("%r.from_bytes(%r + 2 further octets)" % (r, octets), lab.f_dec(f, octets + b"\xee\xee"), ("ok", ({"x": v}, n)))
+                env = REnv([r])
+                e = env.build(lab)
+                for raw in bad:
+                    v = raw * mult + off
+                    fam.check("Envelope(%r).to_bytes() with x = %d (raw %d does not fit)" % (r, v, raw), lab.e_enc(e, {"x": v}), ("raise", "EncodeError"))
+                fam.check("%r.from_bytes(%d octets: short input)" % (r, n - 1), lab.f_dec(f, b"\x01" * (n - 1)), ("raise", "DecodeError"))
+        except MachUnknown as e:
+            fam.unknown = str(e)
+        except PyRaise as e:
+            fam.fail("a witness definition or its evaluation raises %s outside any modelled outcome" % e.cls_name)
+        except MachTimeout:
+            fam.fail("a witness definition or its evaluation does not terminate (step budget exhausted)")
+
+
+def dec_pair(ref_env, data):
+    vals = {}
+    out = ref_out(lambda: ref_env.decode(vals, data))
+    return ("ok", (vals, out[1])) if out[0] == "ok" else out
+
+
+def w_length(lab, fams):
+    m = lab.m
+    # --- Field.from_bytes / to_bytes ------------------------------------------------------------------
+    fam = Family("C16.R3", "Field.from_bytes", "a field decodes exactly the octets its length rule declares: data[:length] goes to the decoder, "
+                 "length is returned, fewer octets than declared are rejected with DecodeError (exactly `length` octets are enough)")
+    fams.append(fam)
+    try:
+        for ln in (1, 2, 5):
+            for avail in (0, ln - 1, ln, ln + 1, ln + 7):
+                data = bytes(range(0x30, 0x30 + avail))
+                for mk in ("Buf", "Probe"):
+                    f = lab.new(mk, "b", len=ln)
+                    want = ("ok", ({"b": data[:ln]}, ln)) if avail >= ln else ("raise", "DecodeError")
+                    fam.check("%s('b', len=%d).from_bytes(%d octets)" % (mk, ln, avail), lab.f_dec(f, data), want)
+        for avail in (0, 1, 9):
+            data = bytes(range(0x41, 0x41 + avail))
+            f = lab.new("Buf", "b")
+            fam.check("Buf('b').from_bytes(%d octets) [flexible length: all of them]" % avail, lab.f_dec(f, data), ("ok", ({"b": data}, avail)))
+        for want_len in (0, 1, 3, 4):
+            for avail in (3, 4, 10):
+                data = bytes(range(0x61, 0x61 + avail))
+                f = lab.new("Probe", "b")
+                m.setattr_(f, "get_len", lambda vals, d, n=want_len: n)
+                want = ("ok", ({"b": data[:want_len]}, want_len)) if avail >= want_len else ("raise", "DecodeError")
+                fam.check("Probe('b') with get_len -> %d, from_bytes(%d octets)" % (want_len, avail), lab.f_dec(f, data), want)
+    except MachUnknown as e:
+        fam.unknown = str(e)
+    except PyRaise as e:
+        fam.fail("a witness definition or its evaluation raises %s outside any modelled outcome" % e.cls_name)
+    except MachTimeout:
+        fam.fail("a witness definition or its evaluation does not terminate (step budget exhausted)")
+    fam = Family("C16.R3", "Field.to_bytes", "a field of fixed length whose encoder yields another number of octets is rejected with EncodeError; "
+                 "otherwise the encoder's octets are returned unchanged")
+    fams.append(fam)
+    try:
+        for ln in (0, 1, 2, 4):
+            for out in (b"", b"A", b"AB", b"ABC", b"ABCD", b"ABCDE"):
+                f = lab.new("Probe", "b", out, **({"len": ln} if ln else {}))
+                want = ("ok", out) if ln == 0 or len(out) == ln else ("raise", "EncodeError")
+                fam.check("Probe('b'%s) encoding to %d octet(s): to_bytes()" % (", len=%d" % ln if ln else "", len(out)), lab.f_enc(f, {}), want)
+                g = lab.new("Buf", "b", **({"len": ln} if ln else {}))
+                fam.check("Buf('b'%s).to_bytes({b: %r})" % (", len=%d" % ln if ln else "", out), lab.f_enc(g, {"b": out}), want)
+    except MachUnknown as e:
+        fam.unknown = str(e)
+    except PyRaise as e:
+        fam.fail("a witness definition or its evaluation raises %s outside any modelled outcome" % e.cls_name)
+    except MachTimeout:
+        fam.fail("a witness definition or its evaluation does not terminate (step budget exhausted)")
+    # --- envelopes ---------------------------------------------------------------------------------------
+    tlv = lambda: [RInt("Uint", "t"), RInt("Uint16BE", "len"), RBuf("v", getlen=lambda v, d: v["len"])]
+    compositions = [
+        REnv([RInt("Uint", "a"), RInt("Uint16LE", "b"), RBuf("c", 3), RSpare("pad", 2), RInt("Int32BE", "d", mult=-1)]),
+        REnv([RBits([("ver", 4, 1), (None, 1, None), ("tn", 3, None)]), RInt("Uint32BE", "fn"), RInt("Uint", "rssi", mult=-1), RInt("Int16BE", "toa"), RBuf("bits")]),
+        REnv(tlv()),
+        REnv(tlv() + [RBuf("tail", 2)]),
+        REnv([RInt("Uint", "n"), REnvF(REnv([RInt("Uint16BE", "x"), RBuf("y", 2)]), "inner", 4), RBuf("rest")]),
+        REnv([RInt("Uint", "n"), REnvF(REnv(tlv()), "inner", getlen=lambda v, d: v["n"]), RInt("Uint", "z")]),
+        REnv([REnvF(REnv([REnvF(REnv([RInt("Int16LE", "deep"), RBits([("p", 3, None), ("q", 5, None)], "lsb")]), "l3", 3), RInt("Uint", "m")]), "l2", 4), RBuf("t", 1)]),
+        REnv([RInt("Uint", "hdr"), RSeqF(REnv(tlv()), "items")]),
+        REnv([RInt("Uint", "cnt"), RSeqF(REnv([RInt("Uint16BE", "k"), RInt("Int", "s")]), "items", getlen=lambda v, d: 3 * v["cnt"]), RBuf("trail")]),
+        REnv([RSeqF(REnv([RBits([("more", 1, None), ("id", 7, None)]), RSeqF(REnv([RInt("Uint", "e")]), "sub", 2)]), "outer")]),
+    ]
+    values = [
+        [{"a": 7, "b": 0x1234, "c": b"xyz", "d": -5}, {"a": 255, "b": 0, "c": b"\x00\x01\x02", "d": 0x7fffffff}],
+        [{"tn": 5, "fn": 0x01020304, "rssi": -110, "toa": -3, "bits": bytes(range(20))}, {"tn": 0, "fn": 0, "rssi": 0, "toa": 32767, "bits": b""}],
+        [{"t": 1, "len": 4, "v": b"abcd"}, {"t": 2, "len": 0, "v": b""}],
+        [{"t": 1, "len": 3, "v": b"abc", "tail": b"TT"}],
+        [{"n": 9, "inner": {"x": 513, "y": b"hi"}, "rest": b"more"}, {"n": 0, "inner": {"x": 0, "y": b"\xff\xff"}, "rest": b""}],
+        [{"n": 6, "inner": {"t": 3, "len": 3, "v": b"abc"}, "z": 1}, {"n": 3, "inner": {"t": 0, "len": 0, "v": b""}, "z": 255}],
+        [{"l2": {"l3": {"deep": -2, "p": 5, "q": 17}, "m": 200}, "t": b"!"}],
+        [{"hdr": 1, "items": [{"t": 1, "len": 2, "v": b"ab"}, {"t": 2, "len": 0, "v": b""}, {"t": 3, "len": 5, "v": b"hello"}]}, {"hdr": 0, "items": []},
+         {"hdr": 2, "items": [{"t": 9, "len": 1, "v": b"z"}]}],
+        [{"cnt": 2, "items": [{"k": 1, "s": -1}, {"k": 65535, "s": 127}], "trail": b"tr"}, {"cnt": 0, "items": [], "trail": b""}],
+        [{"outer": [{"more": 1, "id": 3, "sub": [{"e": 1}, {"e": 2}]}, {"more": 0, "id": 127, "sub": [{"e": 0}, {"e": 255}]}]}],
+    ]
+    for ref, vs in zip(compositions, values):
+        fam = Family("C16.R3", "Envelope", "composition %r: to_bytes() is the concatenation of the fields' octets, from_bytes(to_bytes(v)) returns v and "
+                     "consumes exactly len(octets), to_bytes(from_bytes(octets)) reproduces the octets, a truncated datagram and trailing octets "
+                     "(tail check on) are rejected with DecodeError, with the tail check off exactly the declared octets are consumed" % (ref,))
+        fams.append(fam)
+        try:
+            built = lab.run(lambda: ref.build(lab))
+            if built[0] != "ok":
+                fam.fail("the definition is rejected: %s" % fmt_out(built))
+                continue
+            e = built[1]
+            loose = lab.run(lambda: ref.build(lab, check_len=False))[1]
+            flexible_tail = isinstance(ref.fields[-1], (RBuf, RSeqF, REnvF)) and ref.fields[-1].len == 0 and ref.fields[-1].getlen is None
+            for v in vs:
+                want = ref_out(lambda: ref.encode(v))
+                fam.check("to_bytes() of %r" % (v,), lab.e_enc(e, v), want)
+                if want[0] != "ok":
+                    continue
+                octets = want[1]
+                back = dec_pair(ref, octets)
+                if back[0] != "ok" or back[1][1] != len(octets) or any(back[1][0].get(k) != x for k, x in v.items()):
+                    raise AnalysisError("internal: reference model is not an inverse pair on %r" % (ref,))
+                fam.check("from_bytes(%r)" % (octets,), lab.e_dec(e, octets), back)
+                got = lab.e_dec(e, octets)
+                if got[0] == "ok":
+                    fam.check("to_bytes() of what from_bytes(%r) returned" % (octets,), lab.run(lambda: norm(lab.meth(e, "to_bytes"))), ("ok", octets))
+                for cut in sorted({len(octets) - 1, len(octets) // 2, 1, 0}):
+                    if 0 <= cut < len(octets):
+                        fam.check("from_bytes(first %d of %d octets)" % (cut, len(octets)), lab.e_dec(e, octets[:cut]), dec_pair(ref, octets[:cut]))
+                if not flexible_tail:
+                    ref.check_len = True
+                    fam.check("from_bytes(octets + 2 trailing octets), tail check on", lab.e_dec(e, octets + b"\xee\xee"), dec_pair(ref, octets + b"\xee\xee"))
+                    ref.check_len = False
+                    fam.check("from_bytes(octets + 2 trailing octets), tail check off", lab.e_dec(loose, octets + b"\xee\xee"), dec_pair(ref, octets + b"\xee\xee"))
+                    ref.check_len = True
+        except MachUnknown as ex:
+            fam.unknown = str(ex)
+        except PyRaise as ex:
+            fam.fail("a witness definition or its evaluation raises %s outside any modelled outcome" % ex.cls_name)
+        except MachTimeout:
+            fam.fail("a witness definition or its evaluation does not terminate (step budget exhausted)")
+
+
+def w_nesting(lab, fams):
+    """lengths chain through nested envelopes: the wrapper field declares how many octets the nested envelope gets, the
+    nested envelope (tail check on) must use all of them, the enclosing envelope advances by the wrapper's length"""
+    inner3 = lambda chk=True: REnv([RInt("Uint16BE", "id"), RInt("Uint", "flags")], check_len=chk, name="Inner")
+    cases = [
+        (REnv([RInt("Uint", "a"), REnvF(inner3(), "V", 5), RInt("Uint", "z")]), [bytes(range(1, 8)), bytes(range(1, 6))]),
+        (REnv([RInt("Uint", "a"), REnvF(inner3(), "V", 3), RInt("Uint", "z")]), [bytes(range(1, 6)), bytes(range(1, 7))]),
+        (REnv([RInt("Uint", "a"), REnvF(inner3(False), "V", 5), RInt("Uint16BE", "y")]), [bytes(range(1, 9)), bytes(range(1, 8)), bytes(range(1, 10))]),
+        (REnv([RInt("Uint", "T"), RInt("Uint", "L"), REnvF(inner3(), "V", getlen=lambda v, d: v["L"])]),
+         [b"\x40\x03\xaa\xbb\xcc", b"\x40\x05\xaa\xbb\xcc\xdd\xee", b"\x40\x04\xaa\xbb\xcc\xdd", b"\x40\x03\xaa\xbb\xcc\xdd"]),
+        (REnv([RInt("Uint", "T"), RInt("Uint", "L"), REnvF(inner3(False), "V", getlen=lambda v, d: v["L"]), RBuf("rest")]),
+         [b"\x40\x05\xaa\xbb\xcc\xdd\xee\x11\x22", b"\x40\x03\xaa\xbb\xcc", b"\x40\x02\xaa\xbb\xcc"]),
+        (REnv([RInt("Uint", "ver"), REnvF(inner3(), "tail")]), [b"\x01\xaa\xbb\xcc", b"\x01\xaa\xbb\xcc\xdd\xee", b"\x01\xaa\xbb"]),
+        (REnv([RInt("Uint", "ver"), REnvF(inner3(False), "tail")]), [b"\x01\xaa\xbb\xcc", b"\x01\xaa\xbb\xcc\xdd\xee"]),
+        (REnv([RInt("Uint", "ver"), REnvF(REnv([RInt("Uint", "T"), REnvF(inner3(), "V", 4)], name="Mid"), "tlv", 5), RInt("Uint", "end")]),
+         [b"\x01\x40\xaa\xbb\xcc\xdd\x99", b"\x01\x40\xaa\xbb\xcc\xdd"]),
+        (REnv([RInt("Uint", "ver"), REnvF(REnv([RInt("Uint", "T"), REnvF(inner3(), "V", 3)], name="Mid"), "tlv", 5), RInt("Uint", "end")]),
+         [b"\x01\x40\xaa\xbb\xcc\xdd\x99", b"\x01\x40\xaa\xbb\xcc\xdd"]),
+        (REnv([RInt("Uint", "n"), RSeqF(REnv([RInt("Uint", "k"), REnvF(inner3(False), "in", 4)], name="Item"), "items")]),
+         [b"\x02" + bytes(range(1, 6)) + bytes(range(0x11, 0x16)), b"\x01" + bytes(range(1, 6)) + b"\x77", b"\x00"]),
+        (REnv([RInt("Uint", "n"), RSeqF(REnv([RInt("Uint", "k"), REnvF(inner3(), "in", 4)], name="Item"), "items")]),
+         [b"\x02" + bytes(range(1, 6)) + bytes(range(0x11, 0x16))]),
+    ]
+    for ref, datagrams in cases:
+        fam = Family("C16.R3", "Envelope.F", "nested composition %r: the nested envelope gets exactly the octets its wrapper field declares, "
+                     "must use all of them when its tail check is on (DecodeError otherwise), and the enclosing envelope advances by the "
+                     "wrapper's declared length" % (ref,))
+        fams.append(fam)
+        try:
+            e = ref.build(lab)
+            for data in datagrams:
+                fam.check("from_bytes(%r)" % (data,), lab.e_dec(e, data), dec_pair(ref, data))
+        except MachUnknown as ex:
+            fam.unknown = str(ex)
+        except PyRaise as ex:
+            fam.fail("a witness definition or its evaluation raises %s outside any modelled outcome" % ex.cls_name)
+        except MachTimeout:
+            fam.fail("a witness definition or its evaluation does not terminate (step budget exhausted)")
+
+
+FIELD_EXC_HOST = [ValueError, TypeError, KeyError, IndexError, OverflowError, ZeroDivisionError, AttributeError,
+                  _struct.error, NotImplementedError]
+
+
+def w_errors(lab, fams):
+    m = lab.m
+    fam = Family("C16.R4", "Envelope", "whatever a field raises while a message is decoded / encoded leaves the envelope as the codec's own "
+                 "DecodeError / EncodeError (including a nested envelope's and a sequence item's field)")
+    fams.append(fam)
+    try:
+        excs = [(c.__name__, c("boom")) for c in FIELD_EXC_HOST] + [
+            ("DecodeError", lab.new("DecodeError", "inner")), ("EncodeError", lab.new("EncodeError", "inner"))]
+        for name, exc in excs:
+            mk = lambda: [lab.new("Uint", "a"), lab.new("Boom", "x", exc, len=1), lab.new("Uint", "b")]
+            cls = PClass(m, "W", [lab.cls("Envelope")], {"STRUCT": tuple(mk())})
+            e = m.call(cls, [], {})
+            fam.check("from_bytes() over a field raising %s" % name, lab.e_dec(e, b"\x01\x02\x03"), ("raise", "DecodeError"))
+            fam.check("to_bytes() over a field raising %s" % name, lab.e_enc(e, {"a": 1, "x": 2, "b": 3}), ("raise", "EncodeError"))
+        for name, exc in excs[:4]:
+            inner = PClass(m, "Inner", [lab.cls("Envelope")], {"STRUCT": (lab.new("Boom", "x", exc, len=1),)})
+            outer = PClass(m, "Outer", [lab.cls("Envelope")], {"STRUCT": (lab.new("Uint", "a"), lab.meth(m.call(inner, [], {}), "f", "in", len=1))})
+            e = m.call(outer, [], {})
+            fam.check("from_bytes() over a nested envelope whose field raises %s" % name, lab.e_dec(e, b"\x01\x02"), ("raise", "DecodeError"))
+            fam.check("to_bytes() over a nested envelope whose field raises %s" % name, lab.e_enc(e, {"a": 1, "in": {"x": 1}}), ("raise", "EncodeError"))
+            seq = lab.new("Sequence", item=m.call(inner, [], {}))
+            outer = PClass(m, "Outer", [lab.cls("Envelope")], {"STRUCT": (lab.new("Uint", "a"), lab.meth(seq, "f", "s"))})
+            e = m.call(outer, [], {})
+            fam.check("from_bytes() over a sequence whose item field raises %s" % name, lab.e_dec(e, b"\x01\x02"), ("raise", "DecodeError"))
+            fam.check("to_bytes() over a sequence whose item field raises %s" % name, lab.e_enc(e, {"a": 1, "s": [{"x": 1}]}), ("raise", "EncodeError"))
+        # rejections that do not come from a stub: missing value, wrong type, callback failure
+        ref = REnv([RInt("Uint", "a"), RBuf("b", 2)])
+        e = ref.build(lab)
+        fam.check("to_bytes() with the value of `b` missing", lab.e_enc(e, {"a": 1}), ("raise", "EncodeError"))
+        fam.check("to_bytes() with a = 'text' (not an integer)", lab.e_enc(e, {"a": "text", "b": b"xy"}), ("raise", "EncodeError"))
+        fam.check("to_bytes() with a = 256 (does not fit one octet)", lab.e_enc(e, {"a": 256, "b": b"xy"}), ("raise", "EncodeError"))
+        fam.check("to_bytes() with a = -1 (unsigned field)", lab.e_enc(e, {"a": -1, "b": b"xy"}), ("raise", "EncodeError"))
+        fam.check("to_bytes() with b of 3 octets (fixed length 2)", lab.e_enc(e, {"a": 1, "b": b"xyz"}), ("raise", "EncodeError"))
+        ref = REnv([RInt("Uint", "a"), RBuf("b", getlen=lambda v, d: v["missing"])])
+        e = ref.build(lab)
+        fam.check("from_bytes() where a length callback raises KeyError", lab.e_dec(e, b"\x01\x02\x03"), ("raise", "DecodeError"))
+    except MachUnknown as ex:
+        fam.unknown = str(ex)
+    except PyRaise as ex:
+        fam.fail("a witness definition or its evaluation raises %s outside any modelled outcome" % ex.cls_name)
+    except MachTimeout:
+        fam.fail("a witness definition or its evaluation does not terminate (step budget exhausted)")
+    fam = Family("C16.R4", "Field", "the codec's explicit rejections use its own error classes at field level too: short input -> DecodeError, "
+                 "length mismatch of a fixed-length field -> EncodeError, fixed bit-field value mismatch -> DecodeError")
+    fams.append(fam)
+    try:
+        fam.check("Buf('b', len=4).from_bytes(3 octets)", lab.f_dec(lab.new("Buf", "b", len=4), b"abc"), ("raise", "DecodeError"))
+        fam.check("Uint32BE('x').from_bytes(1 octet)", lab.f_dec(lab.new("Uint32BE", "x"), b"a"), ("raise", "DecodeError"))
+        fam.check("Buf('b', len=4).to_bytes({b: 2 octets})", lab.f_enc(lab.new("Buf", "b", len=4), {"b": b"ab"}), ("raise", "EncodeError"))
+        r = RBits([("v", 4, 0), ("w", 4, None)])
+        fam.check("BitFieldSet(v:4=0, w:4).from_bytes(b'\\x10') [fixed value 0, found 1]", lab.f_dec(r.build(lab), b"\x10"), ("raise", "DecodeError"))
+        r = RBits([("v", 4, 9), ("w", 4, None)])
+        fam.check("BitFieldSet(v:4=9, w:4).from_bytes(b'\\x0f') [fixed value 9, found 0]", lab.f_dec(r.build(lab), b"\x0f"), ("raise", "DecodeError"))
+        for nm in ("DecodeError", "EncodeError"):
+            c = lab.cls(nm)
+            if not any(b is Exception for b in c.mro):
+                fam.fail("codec.%s does not derive from Exception" % nm)
+            else:
+                fam.ok()
+    except MachUnknown as ex:
+        fam.unknown = str(ex)
+    except PyRaise as ex:
+        fam.fail("a witness definition or its evaluation raises %s outside any modelled outcome" % ex.cls_name)
+    except MachTimeout:
+        fam.fail("a witness definition or its evaluation does not terminate (step budget exhausted)")
+    fam = Family("C16.R4", "Spare/Buf", "a spare field ignores its octets on decode (stores nothing, rejects nothing) and encodes as filler * length; "
+                 "a buffer stores and returns its octets unchanged")
+    fams.append(fam)
+    try:
+        for ln, fill in ((1, None), (2, None), (4, b"\xaa"), (3, b"\xff")):
+            r = RSpare("pad", ln, fill)
+            f = r.build(lab)
+            fam.check("%r.to_bytes({})" % (r,), lab.f_enc(f, {}), ("ok", (fill or b"\x00") * ln))
+            for data in (b"\x00" * ln, b"\xff" * ln, bytes(range(1, ln + 1)) + b"zz"):
+                fam.check("%r.from_bytes(%r)" % (r, data), lab.f_dec(f, data), ("ok", ({}, ln)))
+        for data in (b"", b"\x00", b"\x01\x02\x03", bytes(range(256))):
+            fam.check("Buf('b').from_bytes(%d octets)" % len(data), lab.f_dec(lab.new("Buf", "b"), data), ("ok", ({"b": data}, len(data))))
+            fam.check("Buf('b').to_bytes({b: %d octets})" % len(data), lab.f_enc(lab.new("Buf", "b"), {"b": data}), ("ok", data))
+    except MachUnknown as ex:
+        fam.unknown = str(ex)
+    except PyRaise as ex:
+        fam.fail("a witness definition or its evaluation raises %s outside any modelled outcome" % ex.cls_name)
+    except MachTimeout:
+        fam.fail("a witness definition or its evaluation does not terminate (step budget exhausted)")
+
+
+def w_presence(lab, fams):
+    m = lab.m
+    fam = Family("C16.R5", "Field", "presence protocol: a field is absent exactly when get_pres(vals) is the bool False (any other result, also a falsy "
+                 "one, means present); an absent field consumes / emits nothing and neither its length callback nor its converters are consulted")
+    fams.append(fam)
+    try:
+        def boom(*a):
+            raise KeyError("length/value callback consulted for an absent field")
+        for res, present in ((False, False), (True, True), (0, True), (1, True), (None, True), ("", True), (2, True)):
+            f = lab.new("Probe", "b", b"OUT", len=3)
+            m.setattr_(f, "get_pres", lambda vals, r=res: r)
+            if not present:
+                m.setattr_(f, "get_len", boom)
+                m.setattr_(f, "get_val", boom)
+            want = ("ok", ({"b": b"abc"}, 3)) if present else ("ok", ({}, 0))
+            fam.check("Probe('b', len=3) with get_pres -> %r: from_bytes(5 octets)" % (res,), lab.f_dec(f, b"abcde"), want)
+            fam.check("Probe('b', len=3) with get_pres -> %r: to_bytes()" % (res,), lab.f_enc(f, {}), ("ok", b"OUT" if present else b""))
+            seen = m.getattr_(f, "seen")
+            asked = m.getattr_(f, "asked")
+            if not present and (seen or asked):
+                fam.fail("get_pres -> False, yet the converters were called (decoder %d time(s), encoder %d time(s))" % (len(seen), asked))
+            else:
+                fam.ok()
+        # presence driven by an earlier field of the same envelope, both directions, through the envelope
+        ref = REnv([RBits([("flag", 1, None), ("n", 7, None)]), RBuf("opt", 2, pres=lambda v: bool(v["flag"])), RInt("Uint", "z")])
+        e = ref.build(lab)
+        for v in ({"flag": 1, "n": 5, "opt": b"OK", "z": 9}, {"flag": 0, "n": 100, "z": 1}):
+            octets = ref.encode(v)
+            fam.check("%r.to_bytes() of %r" % (ref, v), lab.e_enc(e, v), ("ok", octets))
+            fam.check("%r.from_bytes(%r)" % (ref, octets), lab.e_dec(e, octets), ("ok", (v, len(octets))))
+        ref = REnv([RInt("Uint", "nope"), RBuf("bits", pres=lambda v: not v["nope"], getlen=lambda v, d: {0: 4}[v["nope"]]), RBuf("tail", 1)])
+        e = ref.build(lab)
+        for v in ({"nope": 0, "bits": b"1234", "tail": b"t"}, {"nope": 1, "tail": b"t"}):
+            octets = ref.encode(v)
+            fam.check("%r.to_bytes() of %r" % (ref, v), lab.e_enc(e, v), ("ok", octets))
+            fam.check("%r.from_bytes(%r)" % (ref, octets), lab.e_dec(e, octets), ("ok", (v, len(octets))))
+    except MachUnknown as ex:
+        fam.unknown = str(ex)
+    except PyRaise as ex:
+        fam.fail("a witness definition or its evaluation raises %s outside any modelled outcome" % ex.cls_name)
+    except MachTimeout:
+        fam.fail("a witness definition or its evaluation does not terminate (step budget exhausted)")
+    fam = Family("C16.R5", "Field.__init__", "default callbacks: a field is present, takes its value from vals[name], and its length is the given / "
+                 "class default length - or, for length 0, all remaining octets; derived-class parameters default to DEF_PARAMS")
+    fams.append(fam)
+    try:
+        for mk, args, kw, ln in (("Buf", ["b"], {}, 0), ("Buf", ["b"], {"len": 3}, 3), ("Uint", ["b"], {}, 1), ("Uint32LE", ["b"], {}, 4),
+                                 ("Spare", ["b"], {"len": 2}, 2), ("Probe", ["b"], {}, 0), ("Probe", ["b"], {"len": 5}, 5)):
+            f = lab.new(mk, *args, **kw)
+            what = "%s(%s)" % (mk, ", ".join([repr(a) for a in args] + ["%s=%r" % kv for kv in kw.items()]))
+            fam.check("%s.get_pres({})" % what, lab.run(lambda: lab.meth(f, "get_pres", {}) is not False), ("ok", True))
+            for data in (b"", b"abcdefg"):
+                fam.check("%s.get_len({}, %d octets)" % (what, len(data)), lab.run(lambda: lab.meth(f, "get_len", {}, data)), ("ok", ln or len(data)))
+                fam.check("%s.get_len({'x': 1, 'y': 2, 'z': 3}, %d octets)" % (what, len(data)),
+                          lab.run(lambda: lab.meth(f, "get_len", {"x": 1, "y": 2, "z": 3}, data)), ("ok", ln or len(data)))
+            fam.check("%s.get_val({b: 'V', other: 'W'})" % what, lab.run(lambda: lab.meth(f, "get_val", {"b": "V", "other": "W"})), ("ok", "V"))
+        fam.check("Uint('x') [no offset/mult given] decodes b'\\x07' as 7", lab.f_dec(lab.new("Uint", "x"), b"\x07"), ("ok", ({"x": 7}, 1)))
+        fam.check("Spare('p', len=2) [no filler given] encodes as zero octets", lab.f_enc(lab.new("Spare", "p", len=2), {}), ("ok", b"\x00\x00"))
+        # get_val override
+        f = lab.new("Uint16BE", "len")
+        m.setattr_(f, "get_val", lambda v: len(v["data"]))
+        fam.check("Uint16BE('len') with get_val -> len(vals['data'])", lab.f_enc(f, {"data": b"12345"}), ("ok", b"\x00\x05"))
+    except MachUnknown as ex:
+        fam.unknown = str(ex)
+    except PyRaise as ex:
+        fam.fail("a witness definition or its evaluation raises %s outside any modelled outcome" % ex.cls_name)
+    except MachTimeout:
+        fam.fail("a witness definition or its evaluation does not terminate (step budget exhausted)")
+
+
+def w_ownership(lab, fams):
+    m = lab.m
+    fam = Family("C16.R6", "Sequence.from_bytes", "every decode of a sequence returns a list made by that decode, one fresh dict per item: decoding "
+                 "again (same Sequence object, same envelope, a second Sequence object) returns only the items of that datagram and leaves earlier "
+                 "results untouched")
+    fams.append(fam)
+    try:
+        item = REnv([RInt("Uint", "k"), RInt("Uint16BE", "v")])
+        sf = RSeqF(item, "items")
+        s = sf.build_seq(lab)
+        d1, d2 = b"\x01\x00\x10\x02\x00\x20", b"\x09\x01\x00"
+        w1, w2 = sf.dec_list(d1), sf.dec_list(d2)
+        r1 = lab.run(lambda: lab.meth(s, "from_bytes", d1))
+        fam.check("first from_bytes(%r)" % d1, ("ok", norm(r1[1])) if r1[0] == "ok" else r1, ("ok", w1))
+        r2 = lab.run(lambda: lab.meth(s, "from_bytes", d2))
+        fam.check("second from_bytes(%r) on the same Sequence" % d2, ("ok", norm(r2[1])) if r2[0] == "ok" else r2, ("ok", w2))
+        if r1[0] == "ok" and r2[0] == "ok":
+            fam.check("the first result after the second decode", ("ok", norm(r1[1])), ("ok", w1))
+            if r1[1] is r2[1]:
+                fam.fail("both decodes return the very same list object")
+            elif isinstance(r2[1], list) and len(r2[1]) > 1 and any(a is b for i, a in enumerate(r2[1]) for b in r2[1][i + 1:]):
+                fam.fail("the items of one result are one shared dict")
+            else:
+                fam.ok()
+        r3 = lab.run(lambda: lab.meth(s, "from_bytes", b""))
+        fam.check("from_bytes(b'') after two decodes", ("ok", norm(r3[1])) if r3[0] == "ok" else r3, ("ok", []))
+        s2 = sf.build_seq(lab)
+        r4 = lab.run(lambda: lab.meth(s2, "from_bytes", d2))
+        fam.check("from_bytes(%r) on a second Sequence object" % d2, ("ok", norm(r4[1])) if r4[0] == "ok" else r4, ("ok", w2))
+        # through an envelope, decoded twice
+        ref = REnv([RInt("Uint", "hdr"), RSeqF(REnv([RInt("Uint", "k"), RInt("Uint16BE", "v")]), "items")])
+        e = ref.build(lab)
+        for data in (b"\x07" + d1, b"\x08" + d2, b"\x09"):
+            fam.check("Envelope(hdr, items).from_bytes(%r) [decoded one after the other on the same envelope]" % data, lab.e_dec(e, data), dec_pair(ref, data))
+        fam.check("Sequence.to_bytes(items)", lab.run(lambda: norm(lab.meth(s, "to_bytes", clone_vals(w1)))), ("ok", d1))
+    except MachUnknown as ex:
+        fam.unknown = str(ex)
+    except PyRaise as ex:
+        fam.fail("a witness definition or its evaluation raises %s outside any modelled outcome" % ex.cls_name)
+    except MachTimeout:
+        fam.fail("a witness definition or its evaluation does not terminate (step budget exhausted)")
+    fam = Family("C16.R3", "Sequence", "a sequence needs an item envelope (keyword `item` or class attribute ITEM) and switches that item's tail check "
+                 "off, so that an item followed by further items decodes; the item given by the class attribute is treated the same way")
+    fams.append(fam)
+    try:
+        icls = PClass(m, "Item", [lab.cls("Envelope")], {"STRUCT": (lab.new("Uint", "k"),)})
+        data = b"\x01\x02\x03"
+        want = ("ok", [{"k": 1}, {"k": 2}, {"k": 3}])
+        s = lab.new("Sequence", item=m.call(icls, [], {}))
+        r = lab.run(lambda: norm(lab.meth(s, "from_bytes", data)))
+        fam.check("Sequence(item=Item()).from_bytes(%r)" % data, r, want)
+        scls = PClass(m, "Seq", [lab.cls("Sequence")], {"ITEM": m.call(icls, [], {})})
+        r = lab.run(lambda: norm(lab.meth(m.call(scls, [], {}), "from_bytes", data)))
+        fam.check("class Seq(Sequence): ITEM = Item(); Seq().from_bytes(%r)" % data, r, want)
+        scls = PClass(m, "Seq", [lab.cls("Sequence")], {"ITEM": m.call(icls, [], {})})
+        r = lab.run(lambda: norm(lab.meth(m.call(scls, [], {"item": m.call(icls, [], {})}), "from_bytes", data)))
+        fam.check("Seq(item=Item()) [both given].from_bytes(%r)" % data, r, want)
+        r = lab.run(lambda: lab.new("Sequence"))
+        if r[0] == "ok":
+            fam.fail("Sequence() without any item is accepted")
+        else:
+            fam.ok()
+    except MachUnknown as ex:
+        fam.unknown = str(ex)
+    except PyRaise as ex:
+        fam.fail("a witness definition or its evaluation raises %s outside any modelled outcome" % ex.cls_name)
+    except MachTimeout:
+        fam.fail("a witness definition or its evaluation does not terminate (step budget exhausted)")
+
+
+# ---- definitions found in the toolkit (evaluated value-level against the block semantics) ------------------
+
+class RIntSpec(RInt):
+    """integer field given by its resolved attributes (used for definitions described by C17's layout descriptors)"""
+
+    def __init__(self, name, size, bo, sign, offset=0, mult=1, **kw):
+        RField.__init__(self, name, size, **kw)
+        self.cls, self.kwlen, self.offset, self.mult, self.bo, self.sign = "int", size, offset, mult, bo, sign
+
+    def __repr__(self):
+        return "%s%d%s(%r%s%s)" % ("Int" if self.sign else "Uint", 8 * self.len, "LE" if self.bo == "little" else "BE", self.name,
+                                   ", offset=%d" % self.offset if self.offset else "", ", mult=%d" % self.mult if self.mult != 1 else "")
+
+
+def _pat(k, i, bits):
+    """deterministic value pattern number k for the i-th field, `bits` wide"""
+    x = ((k + 1) * 2654435761 + (i + 1) * 40503 * (k + 3)) & 0xFFFFFFFFFFFFFFFF
+    x ^= x >> 13
+    if k == 0:
+        return 0
+    if k == 1:
+        return (1 << bits) - 1
+    return x & ((1 << bits) - 1)
+
+
+def gen_vals(env, k, depth=0):
+    """a value assignment (variant k) for a definition given by its reference description; None if the variant
+    cannot be built (a callback rejects the values chosen so far)"""
+    vals = {}
+    i = 0
+    for f in env.fields:
+        i += 1
+        try:
+            if isinstance(f, RBits):
+                for j, (name, bl, val) in enumerate(f.fields):
+                    if name is not None:
+                        vals[name] = val if val is not None else _pat(k + depth, i * 8 + j, bl)
+                continue
+            if f.absent(vals):
+                continue
+            if isinstance(f, RInt):
+                raw = _pat(k, i, 8 * f.len)
+                if f.sign:
+                    raw -= 1 << (8 * f.len - 1)
+                vals[f.name] = raw * f.mult + f.offset
+            elif isinstance(f, RSpare):
+                pass
+            elif isinstance(f, RSeqF):
+                n = (0, 1, 3, 2, 8, 4, 5)[k % 7]
+                items = [gen_vals(f.item, k * 5 + 2 + j, depth + 1) for j in range(n)]
+                if any(x is None for x in items):
+                    return None
+                vals[f.name] = items
+            elif isinstance(f, REnvF):
+                inner = gen_vals(f.env, k + 1, depth + 1)
+                if inner is None:
+                    return None
+                vals[f.name] = inner
+            elif isinstance(f, RBuf):
+                if f.getlen is not None:
+                    n = f.getlen(vals, bytes(1000) if k % 2 else b"")
+                elif f.len:
+                    n = f.len
+                else:
+                    n = (0, 2, 7, 0, 1)[k % 5]
+                if not isinstance(n, int) or n < 0 or n > 4096:
+                    return None
+                vals[f.name] = bytes((k * 31 + i * 7 + x) & 0xff for x in range(n))
+            else:
+                return None
+        except RefErr:
+            return None
+    return vals
+
+
+def eval_definition(lab, fam, ref, make, variants=10):
+    """one toolkit definition: the evaluated envelope agrees with the block semantics applied to its own layout"""
+    e = make()
+    n_ok = 0
+    for k in range(variants):
+        v = gen_vals(ref, k)
+        if v is None:
+            continue
+        enc = ref_out(lambda: ref.encode(v))
+        if enc[0] != "ok":
+            continue
+        back = dec_pair(ref, enc[1])
+        if back[0] != "ok" or back[1][1] != len(enc[1]) or any(back[1][0].get(x) != y for x, y in v.items()):
+            continue            # outside the domain of the definition (e.g. an ambiguous padding length)
+        n_ok += 1
+        octets = enc[1]
+        fam.check("to_bytes() of %s" % _short_txt(v, 200), lab.e_enc(e, v), enc)
+        fam.check("from_bytes(%d octets %s...)" % (len(octets), octets[:12].hex()), lab.e_dec(e, octets), back)
+        got = lab.e_dec(e, octets)
+        if got[0] == "ok":
+            fam.check("to_bytes() of what from_bytes(%d octets %s...) returned" % (len(octets), octets[:12].hex()),
+                      lab.run(lambda: norm(lab.meth(e, "to_bytes"))), ("ok", octets))
+    return n_ok
+
+
+def w_toolkit_defs(lab, fams):
+    """the protocol definitions the toolkit itself composes from the blocks (trxd_proto): value-level round trip"""
+    if not lab.repo.has_mod("trxd_proto"):
+        return
+    fam0 = Family("C16.R3", "trxd_proto", "the toolkit's own definitions are evaluated")
+    fam0.optional = True
+    try:
+        from rules import c17
+        defs = c17.definition_refs(lab)
+    except AnalysisError as e:
+        fam0.unknown = "toolkit definitions not evaluable: %s" % e
+        fams.append(fam0)
+        return
+    except (MachUnknown, PyRaise) as e:
+        fam0.unknown = "toolkit definitions not evaluable: %s" % e
+        fams.append(fam0)
+        return
+    for cname, ref, make in defs:
+        fam = Family("C16.R3", cname, "definition trxd_proto.%s composed from the blocks: to_bytes() equals the block semantics applied to its layout, "
+                     "from_bytes(to_bytes(v)) returns v (every item of a sequence included) consuming exactly the datagram, and re-encoding "
+                     "reproduces the octets" % cname)
+        fam.optional = True
+        fams.append(fam)
+        try:
+            n = eval_definition(lab, fam, ref, make)
+            if n == 0:
+                fam.unknown = "no value assignment in the domain of the definition could be generated"
+        except (MachUnknown, AnalysisError) as ex:
+            fam.unknown = str(ex)
+        except PyRaise as ex:
+            fam.fail("evaluating the definition raises %s outside any modelled outcome" % ex.cls_name)
+        except MachTimeout:
+            fam.fail("evaluating the definition does not terminate (step budget exhausted)")
+
+
+WITNESS_GROUPS = (w_bits, w_ints, w_length, w_nesting, w_errors, w_presence, w_ownership, w_toolkit_defs)
+
+
+def run_witnesses(L, repo):
+    """evaluate every witness family; returns the list of families (obligations are committed by the caller)"""
+    try:
+        lab = Lab(repo)
+    except MachUnknown as e:
+        raise AnalysisError("codec.py cannot be evaluated: %s" % e)
+    except PyRaise as e:
+        raise AnalysisError("evaluating codec.py raises %s" % e.cls_name)
+    fams = []
+    for g in WITNESS_GROUPS:
+        try:
+            g(lab, fams)
+        except PyRaise as e:
+            f = Family("C16.R0", g.__name__, "witness construction")
+            f.unknown = "witness construction raises %s" % e.cls_name
+            fams.append(f)
+        except MachUnknown as e:
+            f = Family("C16.R0", g.__name__, "witness construction")
+            f.unknown = str(e)
+            fams.append(f)
+        except MachTimeout:
+            f = Family("C16.R0", g.__name__, "witness construction")
+            f.unknown = "witness construction exceeds the step budget"
+            fams.append(f)
+        except AnalysisError:
+            raise
+        except Exception as e:       # a defect of the evaluator must not masquerade as a verdict
+            f = Family("C16.R0", g.__name__, "witness construction")
+            f.unknown = "internal: %s: %s" % (type(e).__name__, e)
+            fams.append(f)
+    Family.current = None
+    L.extra["witness_evaluations"] = lab.evals
+    return fams
+
+
+class SubLedger:
+    """records what a symbolic rule group registers without committing it to the run's ledger"""
+
+    def __init__(self, L):
+        self.L = L
+        self.repo, self.tier, self.extra = L.repo, L.tier, L.extra
+        self.obs, self.floors, self.fns, self.deficits = [], [], [], []
+
+    def unit(self, relpath):
+        return self.L.unit(relpath)
+
+    def fn(self, relpath, qualname):
+        self.fns.append((relpath, qualname))
+
+    def assume(self, text):
+        self.L.assume(text)
+
+    def ob(self, rule, file, func, key, required, found, ok, line=None, note=None):
+        self.obs.append((rule, file, func, key, required, found, bool(ok), line, note))
+
+    def require(self, rule, file, func, key, required, found, line=None, note=None):
+        self.ob(rule, file, func, key, required, found, found == required, line, note)
+
+    def floor(self, rule, what, found, floor):
+        self.floors.append((rule, what, found, floor))
+
+    def open_items(self):
+        out = ["[%s] %s: %s (expected %s, found %s)" % (o[0], o[2], o[3], _short_txt(o[4]), _short_txt(o[5])) for o in self.obs if not o[6]]
+        out += ["[%s] %s: found %d, floor %d" % f for f in self.floors if f[2] < f[3]]
+        return out
+
+    def commit(self, only_ok=False):
+        for f in self.fns:
+            self.L.fn(*f)
+        for o in self.obs:
+            if o[6] or not only_ok:
+                self.L.ob(*o)
+        for f in self.floors:
+            if f[2] >= f[3] or not only_ok:
+                self.L.floor(*f)
+
+
+def _short_txt(x, n=160):
+    s = x if isinstance(x, str) else repr(x)
+    return s if len(s) <= n else s[:n - 3] + "..."
+
+
+class Verdict:
+    """outcome of the witness evaluation as a whole"""
+
+    def __init__(self, fams, error=None):
+        self.fams = fams or []
+        self.error = error
+        self.failed = [f for f in self.fams if f.bad is not None]
+        self.unknown = [f for f in self.fams if f.unknown is not None and f.bad is None and not f.optional]
+        self.skipped = [f for f in self.fams if f.unknown is not None and f.bad is None and f.optional]
+
+    def unknown_text(self):
+        if self.error:
+            return self.error
+        return "; ".join(sorted({f.unknown for f in self.unknown}))[:300]
+
+
+def symbolic(L, V, fn, *args):
+    """Run one symbolic rule group (a proof attempt for all inputs on the recognised shape of the code).  A closed
+    proof is committed as it is.  A proof that does not close - an unrecognised or differing shape - is NOT a
+    verdict: the law is then decided by the witness evaluation (semantic rule).  Only when the evaluation exhibits
+    a counterexample are the symbolic findings reported along with it; when it cannot be carried out either, the run
+    ends without a verdict."""
+    from report import STAGE_FAILED
+    if any(a is STAGE_FAILED for a in args):
+        return STAGE_FAILED
+    sub = SubLedger(L)
+    err = None
+    try:
+        res = fn(sub, *args)
+    except AnalysisError as e:
+        err, res = str(e), STAGE_FAILED
+    open_ = sub.open_items() + ([err] if err else [])
+    if not open_:
+        sub.commit()
+        return res
+    name = fn.__name__
+    if V.failed:
+        sub.commit()
+        if err:
+            L.deficits.append(err)
+        return res
+    sub.commit(only_ok=True)
+    if V.unknown or V.error:
+        L.deficits.append("%s: the symbolic proof does not close (%s) and the witness evaluation could not be carried out (%s)" % (
+            name, "; ".join(open_)[:400], V.unknown_text()))
+        return res
+    L.extra.setdefault("notes", []).append(
+        "%s: the symbolic proof for the recognised shape does not close (%s); the laws are decided by witness evaluation" % (
+            name, "; ".join(open_)[:600]))
+    L.extra.setdefault("undecided_symbolically", []).append(name)
+    return res
+
+
+def r7_witnesses(L, repo):
+    """semantic rules: every law evaluated on witness definitions (see `Lab`)"""
+    fams = run_witnesses(L, repo)
+    return fams
+
+
+def commit_witnesses(L, V):
+    n = 0
+    for f in V.fams:
+        if f.unknown is not None and f.bad is None:
+            continue
+        n += 1
+        want = "no counterexample among the evaluated witnesses"
+        L.ob(f.rule, F, f.func, f.key, want, f.bad if f.bad is not None else want, f.bad is None)
+    L.extra["witness_families"] = {"evaluated": n, "not_evaluable": len(V.unknown), "optional_skipped": len(V.skipped)}
+    for f in V.skipped:
+        L.extra.setdefault("notes", []).append("%s: %s" % (f.func, f.unknown))
+    if V.unknown or V.error:
+        L.extra.setdefault("notes", []).append("witness evaluation incomplete: %s" % V.unknown_text())
+    else:
+        L.floor("C16.R7", "witness families evaluated", n, 150)
+
+
 def run(L, tier):
+    from report import STAGE_FAILED
     repo = Repo(L.repo)
     L.unit(F)
-    L.stage(r1_set_init, L, repo)
-    L.stage(r1_field_pair, L, repo)
-    L.stage(r1_set_pack, L, repo)
-    L.stage(r2_pair, L, repo)
-    L.stage(r2_class_table, L, repo)
-    presence = L.stage(r3_field, L, repo)
-    L.stage(r3_envelope, L, repo)
-    L.stage(r3_sequence, L, repo)
-    L.stage(r3_nested, L, repo)
-    L.stage(r4_errors, L, repo)
-    L.stage(r4_classes, L, repo)
-    L.stage(r4_spare_buf, L, repo)
-    L.stage(r5_presence, L, repo, presence)
-    L.stage(r5_defaults, L, repo)
-    L.stage(r6_ownership, L, repo)
+    try:
+        V = Verdict(r7_witnesses(L, repo))
+    except AnalysisError as e:
+        V = Verdict(None, error=str(e))
+    symbolic(L, V, r1_set_init, repo)
+    symbolic(L, V, r1_field_pair, repo)
+    symbolic(L, V, r1_set_pack, repo)
+    symbolic(L, V, r2_pair, repo)
+    symbolic(L, V, r2_class_table, repo)
+    presence = symbolic(L, V, r3_field, repo)
+    symbolic(L, V, r3_envelope, repo)
+    symbolic(L, V, r3_sequence, repo)
+    symbolic(L, V, r3_nested, repo)
+    symbolic(L, V, r4_errors, repo)
+    symbolic(L, V, r4_classes, repo)
+    symbolic(L, V, r4_spare_buf, repo)
+    symbolic(L, V, r5_presence, repo, presence)
+    symbolic(L, V, r5_defaults, repo)
+    symbolic(L, V, r6_ownership, repo)
+    commit_witnesses(L, V)
